@@ -46,6 +46,52 @@ Definition hidden_effect (k : str) (st : agg) : agg :=
   else if str_eqb k (s"cpp_class") then with_class_stack (None :: class_stack st) st
   else st.
 
+(* G5: *)
+(* the entries that stem from a doccomment (origins is the ghost list parallel to documented) *)
+Definition from_doc (st : agg) : list entry :=
+  map fst (filter snd (combine (documented st) (origins st))).
+
+(* what of an entry stems from its own doccomment-carrying commands: members and attributes
+   declared without a doccomment and the inner-class name list come from other commands *)
+Definition doc_view (e : entry) : entry :=
+  match e with
+  | EClass n d su inner ct me at_ =>
+      EClass n d su [] (filter m_docd ct) (filter m_docd me) (filter a_docd at_)
+  | _ => e
+  end.
+
+Definition is_doc_class_elem (e : element) : bool :=
+  match e with EDocCmd _ c => kind_is c (s"cpp_class") | _ => false end.
+Definition is_unnamed_class_elem (e : element) : bool :=
+  match e with
+  | ECmd c => kind_is c (s"cpp_class") && match singles c with [] => true | _ :: _ => false end
+  | _ => false
+  end.
+
+(* F9 cannot strike: the class option is on, or no cpp_class carries a doccomment (and then,
+   so that both settings push the same number of frames, every cpp_class has a name) *)
+Definition no_F9 (fl : flags) (es : list element) : bool :=
+  inc_cpp_class fl
+  || (negb (existsb is_doc_class_elem es) && negb (existsb is_unnamed_class_elem es)).
+
+Definition is_decl_kind (k : str) : bool :=
+  str_eqb k (s"ct_add_test") || str_eqb k (s"ct_add_section")
+  || str_eqb k (s"cpp_member") || str_eqb k (s"cpp_constructor").
+Definition elem_is_decl (e : element) : bool :=
+  match elem_kind e with Some k => is_decl_kind k | None => false end.
+Definition elem_is_def (e : element) : bool :=
+  match elem_kind e with Some k => is_def_name k | None => false end.
+
+(* every test / member declaration is immediately followed by the function or macro that
+   implements it (so no declaration is ever pending when another one arrives) *)
+Fixpoint decls_followed (es : list element) : bool :=
+  match es with
+  | [] => true
+  | e :: r =>
+      (if elem_is_decl e then match r with e2 :: _ => elem_is_def e2 | [] => true end else true)
+      && decls_followed r
+  end.
+
 Example flag_of_kind_examples :
   flag_of_kind (s"cpp_attr") = Some inc_cpp_attr
   /\ flag_of_kind (s"function") = Some inc_function
@@ -276,53 +322,6 @@ End WithParams.
 (* G5: the entries stemming from doccomments are the same under every setting              *)
 (* ======================================================================================== *)
 
-(* ---- spec ---- *)
-
-(* the entries that stem from a doccomment (origins is the ghost list parallel to documented) *)
-Definition from_doc (st : agg) : list entry :=
-  map fst (filter snd (combine (documented st) (origins st))).
-
-(* what of an entry stems from its own doccomment-carrying commands: members and attributes
-   declared without a doccomment and the inner-class name list come from other commands *)
-Definition doc_view (e : entry) : entry :=
-  match e with
-  | EClass n d su inner ct me at_ =>
-      EClass n d su [] (filter m_docd ct) (filter m_docd me) (filter a_docd at_)
-  | _ => e
-  end.
-
-Definition is_doc_class_elem (e : element) : bool :=
-  match e with EDocCmd _ c => kind_is c (s"cpp_class") | _ => false end.
-Definition is_unnamed_class_elem (e : element) : bool :=
-  match e with
-  | ECmd c => kind_is c (s"cpp_class") && match singles c with [] => true | _ :: _ => false end
-  | _ => false
-  end.
-
-(* F9 cannot strike: the class option is on, or no cpp_class carries a doccomment (and then,
-   so that both settings push the same number of frames, every cpp_class has a name) *)
-Definition no_F9 (fl : flags) (es : list element) : bool :=
-  inc_cpp_class fl
-  || (negb (existsb is_doc_class_elem es) && negb (existsb is_unnamed_class_elem es)).
-
-Definition is_decl_kind (k : str) : bool :=
-  str_eqb k (s"ct_add_test") || str_eqb k (s"ct_add_section")
-  || str_eqb k (s"cpp_member") || str_eqb k (s"cpp_constructor").
-Definition elem_is_decl (e : element) : bool :=
-  match elem_kind e with Some k => is_decl_kind k | None => false end.
-Definition elem_is_def (e : element) : bool :=
-  match elem_kind e with Some k => is_def_name k | None => false end.
-
-(* every test / member declaration is immediately followed by the function or macro that
-   implements it (so no declaration is ever pending when another one arrives) *)
-Fixpoint decls_followed (es : list element) : bool :=
-  match es with
-  | [] => true
-  | e :: r =>
-      (if elem_is_decl e then match r with e2 :: _ => elem_is_def e2 | [] => true end else true)
-      && decls_followed r
-  end.
-
 (* ---- the documented-only abstraction of a state ---------------------------------------- *)
 
 Fixpoint sel {A} (l : list A) (os : list bool) : list A :=
@@ -480,3 +479,1674 @@ Proof.
   - f_equal. apply IH. intros e He. apply H. exact He.
 Qed.
 
+(* ---- doc_view and last_ok against the update functions of the model ---------------------- *)
+
+Lemma filter_idem : forall A (p : A -> bool) l, filter p (filter p l) = filter p l.
+Proof.
+  intros A p l. induction l as [|x l IH]; [reflexivity|]. cbn [filter].
+  destruct (p x) eqn:E; [cbn [filter]; rewrite E, IH; reflexivity|exact IH].
+Qed.
+
+Lemma doc_view_idem : forall e, doc_view (doc_view e) = doc_view e.
+Proof. intros e; destruct e; try reflexivity. cbn [doc_view]. rewrite !filter_idem. reflexivity. Qed.
+
+Lemma map_doc_view_idem : forall l, map doc_view (map doc_view l) = map doc_view l.
+Proof. intros l. rewrite map_map. apply map_ext. apply doc_view_idem. Qed.
+
+Lemma doc_view_set_kwargs : forall e, doc_view (set_kwargs e) = set_kwargs (doc_view e).
+Proof. intros e; destruct e; reflexivity. Qed.
+
+Lemma doc_view_add_inner : forall n e, doc_view (add_inner n e) = doc_view e.
+Proof. intros n e; destruct e; reflexivity. Qed.
+
+Lemma doc_view_add_inner_abs : forall n e, doc_view (add_inner n (doc_view e)) = doc_view e.
+Proof. intros n e. rewrite doc_view_add_inner. apply doc_view_idem. Qed.
+
+Lemma doc_view_add_method : forall b m e,
+    doc_view (add_method b m e)
+    = if m_docd m then add_method b m (doc_view e) else doc_view e.
+Proof.
+  intros b m e. destruct e; try (destruct (m_docd m); reflexivity).
+  destruct b; cbn [add_method doc_view]; rewrite filter_app; cbn [filter];
+    destruct (m_docd m); rewrite ?app_nil_r; reflexivity.
+Qed.
+
+Lemma doc_view_add_attr : forall a e,
+    doc_view (add_attr a e) = if a_docd a then add_attr a (doc_view e) else doc_view e.
+Proof.
+  intros a e. destruct e; try (destruct (a_docd a); reflexivity).
+  cbn [add_attr doc_view]. rewrite filter_app. cbn [filter].
+  destruct (a_docd a); rewrite ?app_nil_r; reflexivity.
+Qed.
+
+Lemma last_opt_snoc : forall A (l : list A) x, last_opt (l ++ [x]) = Some x.
+Proof.
+  intros A l x. induction l as [|y l IH]; [reflexivity|].
+  cbn [app last_opt]. destruct (l ++ [x]) eqn:E; [destruct l; discriminate|exact IH].
+Qed.
+
+Lemma filter_update_last : forall (upd : method -> method) l,
+    (forall m, m_docd (upd m) = m_docd m) ->
+    filter m_docd (update_last upd l)
+    = match last_opt l with
+      | Some m => if m_docd m then update_last upd (filter m_docd l) else filter m_docd l
+      | None => filter m_docd l
+      end.
+Proof.
+  intros upd l Hupd. destruct l as [|x l] using rev_ind; [reflexivity|].
+  rewrite update_last_snoc, last_opt_snoc, !filter_app. cbn [filter]. rewrite Hupd.
+  destruct (m_docd x); [rewrite update_last_snoc|]; reflexivity.
+Qed.
+
+Lemma upd_method_docd : forall mac extra m, m_docd (upd_method mac extra m) = m_docd m.
+Proof. reflexivity. Qed.
+
+(* the entry update performed when a definition is claimed, as one function *)
+Definition claim_upd (a : await) (mac : bool) (extra : list str) (e : entry) : entry :=
+  match a with
+  | AwNone => e
+  | AwTop _ => match e with
+               | ETest sec n d xf ps _ => ETest sec n d xf (ps ++ extra) mac
+               | _ => e
+               end
+  | AwMethod _ is_ctor =>
+      match e with
+      | EClass n d su inner ct me at_ =>
+          if is_ctor
+          then EClass n d su inner (update_last (upd_method mac extra) ct) me at_
+          else EClass n d su inner ct (update_last (upd_method mac extra) me) at_
+      | _ => e
+      end
+  end.
+
+Definition aw_index (a : await) : option nat :=
+  match a with AwNone => None | AwTop i => Some i | AwMethod i _ => Some i end.
+
+Lemma upd_awaiting_entry_claim : forall a mac extra docs,
+    upd_awaiting_entry a mac extra docs
+    = match aw_index a with
+      | Some i => update_nth i (claim_upd a mac extra) docs
+      | None => docs
+      end.
+Proof. intros a mac extra docs. destruct a; reflexivity. Qed.
+
+Lemma doc_view_claim_top : forall i j mac extra e,
+    doc_view (claim_upd (AwTop i) mac extra e) = claim_upd (AwTop j) mac extra (doc_view e).
+Proof. intros i j mac extra e. destruct e; reflexivity. Qed.
+
+Lemma last_opt_none : forall A (l : list A), last_opt l = None -> l = [].
+Proof.
+  intros A l. induction l as [|x l IH]; [reflexivity|]. cbn [last_opt].
+  destruct l as [|y l]; [discriminate|]. intros H. apply IH in H. discriminate H.
+Qed.
+
+Lemma doc_view_claim_method : forall i j b mac extra e,
+    doc_view (claim_upd (AwMethod i b) mac extra e)
+    = if last_ok b e then claim_upd (AwMethod j b) mac extra (doc_view e) else doc_view e.
+Proof.
+  intros i j b mac extra e. destruct e; try (destruct (last_ok b _); reflexivity).
+  destruct b; cbn [claim_upd doc_view last_ok];
+    rewrite (filter_update_last _ _ (upd_method_docd mac extra)).
+  - destruct (last_opt ctors) as [m|] eqn:E; [destruct (m_docd m); reflexivity|].
+    apply last_opt_none in E. subst ctors. reflexivity.
+  - destruct (last_opt members) as [m|] eqn:E; [destruct (m_docd m); reflexivity|].
+    apply last_opt_none in E. subst members. reflexivity.
+Qed.
+
+Lemma last_ok_set_kwargs : forall b e, last_ok b (set_kwargs e) = last_ok b e.
+Proof. intros b e; destruct e; reflexivity. Qed.
+Lemma last_ok_add_inner : forall n b e, last_ok b (add_inner n e) = last_ok b e.
+Proof. intros n b e; destruct e; reflexivity. Qed.
+Lemma last_ok_add_attr : forall a b e, last_ok b (add_attr a e) = last_ok b e.
+Proof. intros a b e; destruct e; reflexivity. Qed.
+
+Lemma last_ok_nth_update : forall b (f : entry -> entry) l i j,
+    (forall e, last_ok b (f e) = last_ok b e) ->
+    last_ok b (nth i (update_nth j f l) dummy_entry) = last_ok b (nth i l dummy_entry).
+Proof.
+  intros b f l. induction l as [|x l IH]; intros i j H.
+  - destruct j; reflexivity.
+  - destruct j as [|j], i as [|i]; cbn [update_nth nth]; try reflexivity.
+    + apply H.
+    + apply IH. exact H.
+Qed.
+
+Lemma is_class_set_kwargs : forall e, is_class_entry (set_kwargs e) = is_class_entry e.
+Proof. intros e; destruct e; reflexivity. Qed.
+Lemma is_class_add_inner : forall n e, is_class_entry (add_inner n e) = is_class_entry e.
+Proof. intros n e; destruct e; reflexivity. Qed.
+Lemma is_class_add_attr : forall a e, is_class_entry (add_attr a e) = is_class_entry e.
+Proof. intros a e; destruct e; reflexivity. Qed.
+Lemma is_class_add_method : forall b m e, is_class_entry (add_method b m e) = is_class_entry e.
+Proof. intros b m e; destruct e; try reflexivity. destruct b; reflexivity. Qed.
+Lemma is_class_claim_upd : forall a mac extra e,
+    is_class_entry (claim_upd a mac extra e) = is_class_entry e.
+Proof.
+  intros a mac extra e. destruct a as [|i|i b]; [reflexivity| |]; destruct e; try reflexivity.
+  destruct b; reflexivity.
+Qed.
+
+(* ---- the invariant of reachable states ---------------------------------------------------- *)
+
+Definition aw_lt (n : nat) (a : await) : Prop :=
+  match aw_index a with Some i => i < n | None => True end.
+
+Definition class_at (docs : list entry) (i : nat) : Prop :=
+  exists e, nth_error docs i = Some e /\ is_class_entry e = true.
+
+Definition inv (st : agg) : Prop :=
+  length (documented st) = length (origins st)
+  /\ (forall i, In (Some i) (class_stack st) -> class_at (documented st) i)
+  /\ (forall i, In (Some i) (def_stack st) -> i < length (documented st))
+  /\ aw_lt (length (documented st)) (awaiting st).
+
+Lemma class_at_lt : forall docs i, class_at docs i -> i < length docs.
+Proof.
+  intros docs i (e & H & _). apply nth_error_Some. rewrite H. discriminate.
+Qed.
+
+Lemma class_at_app : forall docs x i, class_at docs i -> class_at (docs ++ x) i.
+Proof.
+  intros docs x i (e & H & C). exists e. split; [|exact C].
+  rewrite nth_error_app1; [exact H|]. apply nth_error_Some. rewrite H. discriminate.
+Qed.
+
+Lemma class_at_update : forall docs (f : entry -> entry) j i,
+    (forall e, is_class_entry (f e) = is_class_entry e) ->
+    class_at docs i -> class_at (update_nth j f docs) i.
+Proof.
+  intros docs f j i Hf (e & H & C). unfold class_at. rewrite nth_error_update_nth, H.
+  destruct (Nat.eqb i j); cbn [option_map]; eexists; split; try reflexivity; [rewrite Hf|]; exact C.
+Qed.
+
+Lemma inv_init : inv agg_init.
+Proof. repeat split; cbn; intros; contradiction. Qed.
+
+Lemma inv_append : forall e docd st, inv st -> inv (append e docd st).
+Proof.
+  intros e docd st (L & C & D & A). unfold inv. cbn [append documented origins class_stack def_stack awaiting].
+  repeat split.
+  - rewrite !app_length, L. reflexivity.
+  - intros i Hi. apply class_at_app. apply C. exact Hi.
+  - intros i Hi. rewrite app_length. apply D in Hi. lia.
+  - unfold aw_lt in *. destruct (aw_index (awaiting st)); [rewrite app_length; lia|exact I].
+Qed.
+
+Lemma inv_update : forall (f : entry -> entry) j st,
+    (forall e, is_class_entry (f e) = is_class_entry e) ->
+    inv st -> inv (with_docs (update_nth j f) st).
+Proof.
+  intros f j st Hf (L & C & D & A). unfold inv.
+  cbn [with_docs documented origins class_stack def_stack awaiting].
+  rewrite length_update_nth. repeat split; try assumption.
+  intros i Hi. apply class_at_update; [exact Hf|]. apply C. exact Hi.
+Qed.
+
+Lemma inv_with_def_stack : forall ds st,
+    inv st -> (forall i, In (Some i) ds -> i < length (documented st)) ->
+    inv (with_def_stack ds st).
+Proof. intros ds st (L & C & D & A) H. repeat split; assumption. Qed.
+
+Lemma inv_with_class_stack : forall cs st,
+    inv st -> (forall i, In (Some i) cs -> class_at (documented st) i) ->
+    inv (with_class_stack cs st).
+Proof. intros cs st (L & C & D & A) H. repeat split; assumption. Qed.
+
+Lemma inv_with_awaiting : forall a st,
+    inv st -> aw_lt (length (documented st)) a -> inv (with_awaiting a st).
+Proof. intros a st (L & C & D & A) H. repeat split; assumption. Qed.
+
+Lemma inv_push_none_def : forall st, inv st -> inv (with_def_stack (None :: def_stack st) st).
+Proof.
+  intros st H. apply inv_with_def_stack; [exact H|].
+  intros i [Hi|Hi]; [discriminate Hi|]. destruct H as (_ & _ & D & _). apply D. exact Hi.
+Qed.
+
+Lemma inv_push_none_class : forall st, inv st -> inv (with_class_stack (None :: class_stack st) st).
+Proof.
+  intros st H. apply inv_with_class_stack; [exact H|].
+  intros i [Hi|Hi]; [discriminate Hi|]. destruct H as (_ & C & _ & _). apply C. exact Hi.
+Qed.
+
+(* ---- the abstraction against the state constructors --------------------------------------- *)
+
+Lemma agg_eq : forall a b,
+    documented a = documented b -> origins a = origins b -> class_stack a = class_stack b ->
+    def_stack a = def_stack b -> awaiting a = awaiting b -> a = b.
+Proof. intros [a1 a2 a3 a4 a5] [b1 b2 b3 b4 b5]; cbn; intros; subst; reflexivity. Qed.
+
+Lemma map_const_length : forall A B (l : list A) (l' : list B),
+    length l = length l' -> map (fun _ => true) l = map (fun _ => true) l'.
+Proof.
+  intros A B l. induction l as [|x l IH]; intros [|y l'] H; cbn in H; try discriminate; [reflexivity|].
+  cbn [map]. f_equal. apply IH. lia.
+Qed.
+
+Lemma map_idx_stack_app : forall os x n (stk : list (option nat)),
+    (forall i, In (Some i) stk -> i < n) -> n <= length os ->
+    map (map_idx (os ++ x)) stk = map (map_idx os) stk.
+Proof.
+  intros os x n stk H Hn. apply map_ext_in. intros [i|] Hi; [|reflexivity].
+  apply (map_idx_app os x n); [|exact Hn]. cbn [idx_lt]. apply Nat.ltb_lt. apply H. exact Hi.
+Qed.
+
+Lemma abs_aw_append : forall e docd st, inv st -> abs_aw (append e docd st) = abs_aw st.
+Proof.
+  intros e docd st (L & _ & _ & A). unfold abs_aw. cbn [append awaiting origins documented].
+  unfold aw_lt in A. destruct (awaiting st) as [|i|i b]; cbn [aw_index] in A; [reflexivity| |].
+  - rewrite orig_app, rank_app by lia. reflexivity.
+  - rewrite orig_app, rank_app by lia. rewrite app_nth1 by lia. reflexivity.
+Qed.
+
+Lemma absn_append : forall e docd st,
+    inv st ->
+    absn (append e docd st) = if docd then append (doc_view e) true (absn st) else absn st.
+Proof.
+  intros e docd st Hinv. pose proof Hinv as (L & C & D & A).
+  assert (Hcs : map (map_idx (origins st ++ [docd])) (class_stack st)
+                = map (map_idx (origins st)) (class_stack st)).
+  { apply (map_idx_stack_app _ _ (length (documented st))); [|lia].
+    intros i Hi. apply class_at_lt. apply C. exact Hi. }
+  assert (Hds : map (map_idx (origins st ++ [docd])) (def_stack st)
+                = map (map_idx (origins st)) (def_stack st)).
+  { apply (map_idx_stack_app _ _ (length (documented st))); [exact D|lia]. }
+  destruct docd; apply agg_eq;
+    cbn [absn append documented origins class_stack def_stack awaiting];
+    rewrite ?sel_app by exact L; cbn [sel]; rewrite ?app_nil_r, ?map_app; cbn [map];
+    try reflexivity; try exact Hcs; try exact Hds;
+    try (apply (abs_aw_append e _ st Hinv)).
+Qed.
+
+(* the rank a freshly appended doccomment entry gets *)
+Lemma map_idx_new : forall st docd,
+    length (documented st) = length (origins st) ->
+    map_idx (origins st ++ [docd]) (Some (length (documented st)))
+    = if docd then Some (length (documented (absn st))) else None.
+Proof.
+  intros st docd L. cbn [map_idx]. rewrite L, orig_app_new. destruct docd; [|reflexivity].
+  rewrite rank_app by lia. rewrite rank_all. cbn [absn documented].
+  rewrite map_length, sel_length by exact L. reflexivity.
+Qed.
+
+Lemma abs_aw_update : forall (f : entry -> entry) j st,
+    (forall b e, last_ok b (f e) = last_ok b e) ->
+    abs_aw (with_docs (update_nth j f) st) = abs_aw st.
+Proof.
+  intros f j st Hf. unfold abs_aw. cbn [with_docs awaiting origins documented].
+  destruct (awaiting st) as [|i|i b]; try reflexivity.
+  rewrite last_ok_nth_update by (apply Hf). reflexivity.
+Qed.
+
+Lemma docs_update_invisible : forall (f : entry -> entry) j st,
+    length (documented st) = length (origins st) ->
+    (orig (origins st) j = false
+     \/ forall e, nth_error (documented st) j = Some e -> doc_view (f e) = doc_view e) ->
+    map doc_view (sel (update_nth j f (documented st)) (origins st))
+    = map doc_view (sel (documented st) (origins st)).
+Proof.
+  intros f j st L H. rewrite sel_update_nth by exact L.
+  destruct (orig (origins st) j) eqn:E; [|reflexivity].
+  destruct H as [H|H]; [discriminate|].
+  apply map_update_nth_id. intros e He. apply H.
+  rewrite <- He. symmetry. apply nth_error_sel; assumption.
+Qed.
+
+Lemma docs_update_visible : forall (f g : entry -> entry) j st,
+    length (documented st) = length (origins st) ->
+    orig (origins st) j = true ->
+    (forall e, nth_error (documented st) j = Some e -> doc_view (f e) = g (doc_view e)) ->
+    map doc_view (sel (update_nth j f (documented st)) (origins st))
+    = update_nth (rank (origins st) j) g (map doc_view (sel (documented st) (origins st))).
+Proof.
+  intros f g j st L E H. rewrite sel_update_nth by exact L. rewrite E.
+  apply map_update_nth_cond. intros e He. apply H.
+  rewrite <- He. symmetry. apply nth_error_sel; assumption.
+Qed.
+
+Lemma origins_update : forall (f : entry -> entry) j st,
+    length (documented st) = length (origins st) ->
+    map (fun _ => true) (sel (update_nth j f (documented st)) (origins st))
+    = map (fun _ => true) (sel (documented st) (origins st)).
+Proof.
+  intros f j st L. apply map_const_length. rewrite sel_update_nth by exact L.
+  destruct (orig (origins st) j); [apply length_update_nth|reflexivity].
+Qed.
+
+Lemma absn_update_invisible : forall (f : entry -> entry) j st,
+    inv st ->
+    (orig (origins st) j = false
+     \/ forall e, nth_error (documented st) j = Some e -> doc_view (f e) = doc_view e) ->
+    (forall b e, last_ok b (f e) = last_ok b e) ->
+    absn (with_docs (update_nth j f) st) = absn st.
+Proof.
+  intros f j st (L & _) H Hl. apply agg_eq;
+    cbn [absn with_docs documented origins class_stack def_stack awaiting]; try reflexivity.
+  - apply docs_update_invisible; assumption.
+  - apply origins_update; assumption.
+  - apply (abs_aw_update f j st Hl).
+Qed.
+
+Lemma absn_update_visible : forall (f g : entry -> entry) j st,
+    inv st ->
+    orig (origins st) j = true ->
+    (forall e, nth_error (documented st) j = Some e -> doc_view (f e) = g (doc_view e)) ->
+    (forall b e, last_ok b (f e) = last_ok b e) ->
+    absn (with_docs (update_nth j f) st)
+    = with_docs (update_nth (rank (origins st) j) g) (absn st).
+Proof.
+  intros f g j st (L & _) E H Hl. apply agg_eq;
+    cbn [absn with_docs documented origins class_stack def_stack awaiting]; try reflexivity.
+  - apply docs_update_visible; assumption.
+  - apply origins_update; assumption.
+  - apply (abs_aw_update f j st Hl).
+Qed.
+
+Lemma norm_absn : forall st, norm (absn st) = absn st.
+Proof.
+  intros st. apply agg_eq; cbn [norm with_docs absn documented origins class_stack def_stack awaiting];
+    try reflexivity. apply map_doc_view_idem.
+Qed.
+
+Lemma absn_with_def_stack : forall ds st,
+    absn (with_def_stack ds st) = with_def_stack (map (map_idx (origins st)) ds) (absn st).
+Proof. intros ds st. apply agg_eq; reflexivity. Qed.
+
+Lemma absn_with_class_stack : forall cs st,
+    absn (with_class_stack cs st) = with_class_stack (map (map_idx (origins st)) cs) (absn st).
+Proof. intros cs st. apply agg_eq; reflexivity. Qed.
+
+Lemma last_opt_filter : forall A (p : A -> bool) l m, last_opt (filter p l) = Some m -> p m = true.
+Proof.
+  intros A p l m. induction l as [|x l IH]; [discriminate|]. cbn [filter].
+  destruct (p x) eqn:E; [|exact IH]. cbn [last_opt].
+  destruct (filter p l) as [|y r] eqn:F; [intros H; inversion H; subst; exact E|exact IH].
+Qed.
+
+Lemma last_ok_doc_view : forall b e, last_ok b (doc_view e) = true.
+Proof.
+  intros b e. destruct e; try reflexivity. cbn [doc_view last_ok].
+  destruct b.
+  - destruct (last_opt (filter m_docd ctors)) as [m|] eqn:E; [|reflexivity].
+    apply last_opt_filter in E. exact E.
+  - destruct (last_opt (filter m_docd members)) as [m|] eqn:E; [|reflexivity].
+    apply last_opt_filter in E. exact E.
+Qed.
+
+Lemma map_dv_update_abs : forall (g : entry -> entry) l r,
+    (forall y, doc_view (g (doc_view y)) = g (doc_view y)) ->
+    map doc_view (update_nth r g (map doc_view l)) = update_nth r g (map doc_view l).
+Proof.
+  intros g l. induction l as [|x l IH]; intros [|r] H; cbn [map update_nth]; try reflexivity.
+  - rewrite H, map_doc_view_idem. reflexivity.
+  - rewrite doc_view_idem. f_equal. apply IH. exact H.
+Qed.
+
+Lemma map_dv_update_erased : forall (g : entry -> entry) l r,
+    (forall y, doc_view (g y) = doc_view y) ->
+    map doc_view (update_nth r g l) = map doc_view l.
+Proof. intros g l r H. apply map_update_nth_id. intros e _. apply H. Qed.
+
+Lemma norm_update_abs : forall (g : entry -> entry) r st,
+    (forall y, doc_view (g (doc_view y)) = g (doc_view y)) ->
+    norm (with_docs (update_nth r g) (absn st)) = with_docs (update_nth r g) (absn st).
+Proof.
+  intros g r st H. apply agg_eq;
+    cbn [norm with_docs absn documented origins class_stack def_stack awaiting]; try reflexivity.
+  apply map_dv_update_abs. exact H.
+Qed.
+
+Lemma stable_set_kwargs : forall y, doc_view (set_kwargs (doc_view y)) = set_kwargs (doc_view y).
+Proof. intros y. rewrite doc_view_set_kwargs, doc_view_idem. reflexivity. Qed.
+
+Lemma stable_add_method : forall b m, m_docd m = true ->
+    forall y, doc_view (add_method b m (doc_view y)) = add_method b m (doc_view y).
+Proof. intros b m H y. rewrite doc_view_add_method, H, doc_view_idem. reflexivity. Qed.
+
+Lemma stable_add_attr : forall a, a_docd a = true ->
+    forall y, doc_view (add_attr a (doc_view y)) = add_attr a (doc_view y).
+Proof. intros a H y. rewrite doc_view_add_attr, H, doc_view_idem. reflexivity. Qed.
+
+Lemma stable_claim : forall a mac extra y,
+    doc_view (claim_upd a mac extra (doc_view y)) = claim_upd a mac extra (doc_view y).
+Proof.
+  intros a mac extra y. destruct a as [|i|i b].
+  - apply doc_view_idem.
+  - rewrite (doc_view_claim_top i i), doc_view_idem. reflexivity.
+  - rewrite (doc_view_claim_method i i), last_ok_doc_view, doc_view_idem. reflexivity.
+Qed.
+
+Lemma last_ok_after_add : forall docs cidx b m,
+    class_at docs cidx ->
+    last_ok b (nth cidx (update_nth cidx (add_method b m) docs) dummy_entry) = m_docd m.
+Proof.
+  intros docs cidx b m (e & H & C).
+  assert (Hn : nth_error (update_nth cidx (add_method b m) docs) cidx = Some (add_method b m e)).
+  { apply nth_error_update_nth_eq. exact H. }
+  rewrite (nth_error_nth _ _ _ Hn). destruct e; try discriminate C.
+  destruct b; cbn [add_method last_ok]; rewrite last_opt_snoc; reflexivity.
+Qed.
+
+Lemma inv_stack_tail : forall st x r,
+    inv st -> class_stack st = x :: r -> forall i, In (Some i) r -> class_at (documented st) i.
+Proof. intros st x r (_ & C & _) E i Hi. apply C. rewrite E. right. exact Hi. Qed.
+
+Lemma inv_top_class : forall st cidx r,
+    inv st -> class_stack st = Some cidx :: r -> class_at (documented st) cidx.
+Proof. intros st cidx r (_ & C & _) E. apply C. rewrite E. left. reflexivity. Qed.
+
+Section Abstraction.
+  Variable trigger : str.
+  Variables strip_fn strip_mac strip_mem : str -> str.
+
+  Notation step fl := (agg_step fl trigger strip_fn strip_mac strip_mem).
+  Notation run fl := (agg_run fl trigger strip_fn strip_mac strip_mem).
+  Notation entercmd fl := (enter_command fl trigger strip_fn strip_mac strip_mem).
+  Notation enterdoc := (enter_documented trigger strip_fn strip_mac).
+  Notation runh := (run_handler trigger strip_fn strip_mac).
+
+  (* ---- (I) handlers of doccomment-carrying commands commute with the abstraction -------- *)
+
+  Lemma def_abs : forall mac c doc st st1,
+      inv st ->
+      process_def trigger strip_fn strip_mac mac c doc true st = Ok st1 ->
+      exists a1, process_def trigger strip_fn strip_mac mac c doc true (absn st) = Ok a1
+                 /\ norm a1 = absn st1 /\ inv st1.
+  Proof.
+    intros mac c doc st st1 Hinv H. unfold process_def in *.
+    destruct (singles c) as [|name ps]; [discriminate|]. inversion H; subst st1; clear H.
+    eexists. split; [reflexivity|]. pose proof Hinv as (L & C & D & A). split.
+    - rewrite absn_with_def_stack, absn_append by exact Hinv.
+      apply agg_eq;
+        cbn [norm with_docs with_def_stack append absn documented origins class_stack def_stack
+                  awaiting doc_view]; try reflexivity.
+      + rewrite map_app, map_doc_view_idem. reflexivity.
+      + cbn [map]. rewrite (map_idx_new st true L). cbn [absn documented]. f_equal.
+        symmetry. apply (map_idx_stack_app _ _ (length (documented st))); [exact D|lia].
+    - apply inv_with_def_stack; [apply inv_append; exact Hinv|].
+      cbn [append documented def_stack]. rewrite app_length. cbn [length].
+      intros i [Hi|Hi]; [inversion Hi; lia|apply D in Hi; lia].
+  Qed.
+
+  Lemma cpa_abs : forall st,
+      inv st -> norm (process_cpa (absn st)) = absn (process_cpa st) /\ inv (process_cpa st).
+  Proof.
+    intros st Hinv. unfold process_cpa. cbn [absn def_stack].
+    destruct (def_stack st) as [|[idx|] r] eqn:E; cbn [map map_idx].
+    - split; [apply norm_absn|exact Hinv].
+    - split; [|apply inv_update; [apply is_class_set_kwargs|exact Hinv]].
+      destruct (orig (origins st) idx) eqn:Eo.
+      + rewrite (absn_update_visible set_kwargs set_kwargs idx st Hinv Eo
+                   (fun e _ => doc_view_set_kwargs e) last_ok_set_kwargs).
+        apply norm_update_abs. apply stable_set_kwargs.
+      + rewrite (absn_update_invisible set_kwargs idx st Hinv (or_introl Eo) last_ok_set_kwargs).
+        apply norm_absn.
+    - split; [apply norm_absn|exact Hinv].
+  Qed.
+
+  Lemma test_abs : forall sec c doc st,
+      inv st ->
+      norm (process_test sec c doc true (absn st)) = absn (process_test sec c doc true st)
+      /\ inv (process_test sec c doc true st).
+  Proof.
+    intros sec c doc st Hinv. unfold process_test.
+    destruct (Nat.ltb (length (singles c)) 2); [split; [apply norm_absn|exact Hinv]|].
+    destruct (scan_name (singles c) []) as [name|]; [|split; [apply norm_absn|exact Hinv]].
+    pose proof Hinv as (L & C & D & A). split.
+    - apply agg_eq;
+        cbn [norm with_docs with_awaiting append absn documented origins class_stack def_stack
+                  awaiting]; try reflexivity.
+      + rewrite sel_app by exact L. cbn [sel]. rewrite !map_app, map_doc_view_idem. reflexivity.
+      + rewrite sel_app by exact L. cbn [sel]. rewrite !map_app. reflexivity.
+      + symmetry. apply (map_idx_stack_app _ _ (length (documented st))); [|lia].
+        intros i Hi. apply class_at_lt. apply C. exact Hi.
+      + symmetry. apply (map_idx_stack_app _ _ (length (documented st))); [exact D|lia].
+      + unfold abs_aw. cbn [with_awaiting append awaiting origins documented].
+        rewrite L, orig_app_new, rank_app, rank_all by lia.
+        rewrite map_length, sel_length by exact L. reflexivity.
+    - apply inv_with_awaiting; [apply inv_append; exact Hinv|].
+      cbn [append documented]. unfold aw_lt. cbn [aw_index]. rewrite app_length. cbn [length]. lia.
+  Qed.
+
+  Lemma append_abs : forall e st,
+      inv st -> doc_view e = e ->
+      norm (append e true (absn st)) = absn (append e true st) /\ inv (append e true st).
+  Proof.
+    intros e st Hinv He. split; [|apply inv_append; exact Hinv].
+    rewrite absn_append by exact Hinv. rewrite He.
+    apply agg_eq; cbn [norm with_docs append absn documented origins class_stack def_stack awaiting];
+      try reflexivity.
+    rewrite map_app, map_doc_view_idem. cbn [map]. rewrite He. reflexivity.
+  Qed.
+
+  Lemma class_abs : forall c doc st,
+      inv st ->
+      norm (process_class c doc true (absn st)) = absn (process_class c doc true st)
+      /\ inv (process_class c doc true st).
+  Proof.
+    intros c doc st Hinv. unfold process_class.
+    destruct (singles c) as [|name supers]; [split; [apply norm_absn|exact Hinv]|].
+    pose proof Hinv as (L & C & D & A).
+    set (newc := EClass name doc supers [] [] [] []).
+    assert (Hnew : absn (append newc true st) = append newc true (absn st)).
+    { rewrite absn_append by exact Hinv. reflexivity. }
+    assert (Hinv1 : inv (append newc true st)) by (apply inv_append; exact Hinv).
+    assert (Hpush : map (map_idx (origins st ++ [true])) (Some (length (documented st)) :: class_stack st)
+                    = Some (length (documented (absn st))) :: map (map_idx (origins st)) (class_stack st)).
+    { cbn [map]. rewrite (map_idx_new st true L). f_equal.
+      apply (map_idx_stack_app _ _ (length (documented st))); [|lia].
+      intros i Hi. apply class_at_lt. apply C. exact Hi. }
+    assert (Hnewat : class_at (documented st ++ [newc]) (length (documented st))).
+    { exists newc. split; [|reflexivity].
+      rewrite nth_error_app2 by lia. rewrite Nat.sub_diag. reflexivity. }
+    cbn [absn class_stack].
+    destruct (class_stack st) as [|[cidx|] r] eqn:Ecs; cbn [map map_idx].
+    - (* no class open *)
+      split.
+      + rewrite absn_with_class_stack. cbn [append origins class_stack]. rewrite Hnew.
+        rewrite ?Ecs. rewrite Hpush.
+        apply agg_eq;
+          cbn [norm with_docs with_class_stack append absn documented origins class_stack def_stack
+                    awaiting map]; rewrite ?Ecs; try reflexivity.
+        rewrite map_app, map_doc_view_idem. reflexivity.
+      + apply inv_with_class_stack; [exact Hinv1|].
+        cbn [append class_stack documented]. rewrite Ecs.
+        intros i [Hi|[]]. inversion Hi; subst. apply Hnewat.
+    - (* a class on top *)
+      assert (Hinv2 : inv (with_docs (update_nth cidx (add_inner name)) (append newc true st))).
+      { apply inv_update; [apply is_class_add_inner|exact Hinv1]. }
+      assert (Habs2 : absn (with_docs (update_nth cidx (add_inner name)) (append newc true st))
+                      = append newc true (absn st)).
+      { rewrite absn_update_invisible; [exact Hnew|exact Hinv1| |apply last_ok_add_inner].
+        right. intros e _. apply doc_view_add_inner. }
+      split.
+      + rewrite absn_with_class_stack. cbn [with_docs append origins class_stack]. rewrite Habs2.
+        rewrite ?Ecs. rewrite Hpush.
+        destruct (orig (origins st) cidx);
+          apply agg_eq;
+          cbn [norm with_docs with_class_stack append absn documented origins class_stack def_stack
+                    awaiting map map_idx]; rewrite ?Ecs; try reflexivity.
+        * rewrite map_dv_update_erased by (apply doc_view_add_inner).
+          rewrite map_app, map_doc_view_idem. reflexivity.
+        * rewrite map_app, map_doc_view_idem. reflexivity.
+      + apply inv_with_class_stack; [exact Hinv2|].
+        cbn [with_docs append class_stack documented]. rewrite Ecs.
+        intros i [Hi|Hi].
+        * inversion Hi; subst. apply class_at_update; [apply is_class_add_inner|apply Hnewat].
+        * apply class_at_update; [apply is_class_add_inner|]. apply class_at_app. apply C. exact Hi.
+    - (* a hidden class on top *)
+      split.
+      + rewrite absn_with_class_stack. cbn [append origins class_stack]. rewrite Hnew.
+        rewrite ?Ecs. rewrite Hpush.
+        apply agg_eq;
+          cbn [norm with_docs with_class_stack append absn documented origins class_stack def_stack
+                    awaiting]; rewrite ?Ecs; try reflexivity.
+        rewrite map_app, map_doc_view_idem. reflexivity.
+      + apply inv_with_class_stack; [exact Hinv1|].
+        cbn [append class_stack documented]. rewrite Ecs.
+        intros i [Hi|[Hi|Hi]]; [inversion Hi; subst; apply Hnewat|discriminate Hi|].
+        apply class_at_app. apply C. right. exact Hi.
+  Qed.
+
+
+  Lemma member_doc_abs : forall b c doc st,
+      inv st -> abs_aw st = AwNone ->
+      norm (process_member b c doc true (absn st)) = absn (process_member b c doc true st)
+      /\ inv (process_member b c doc true st).
+  Proof.
+    intros b c doc st Hinv Haw. unfold process_member.
+    destruct (Nat.ltb (length (singles c)) 2); [split; [apply norm_absn|exact Hinv]|].
+    pose proof Hinv as (L & C & D & A).
+    cbn [absn class_stack].
+    destruct (class_stack st) as [|[cidx|] r] eqn:Ecs; cbn [map map_idx];
+      try (split; [apply norm_absn|exact Hinv]).
+    set (m := {| m_name := nth 0 (singles c) []; m_doc := doc; m_parent := nth 1 (singles c) [];
+                 m_types := skipn 2 (singles c); m_params := []; m_ctor := b; m_macro := false;
+                 m_docd := true |}).
+    assert (Hcl : class_at (documented st) cidx) by (apply (inv_top_class st cidx r Hinv Ecs)).
+    split.
+    - destruct (orig (origins st) cidx) eqn:Eo.
+      + apply agg_eq;
+          cbn [norm with_docs with_awaiting absn documented origins class_stack def_stack awaiting];
+          try reflexivity.
+        * rewrite (docs_update_visible (add_method b m) (add_method b m) cidx st L Eo)
+            by (intros e _; rewrite doc_view_add_method; reflexivity).
+          apply map_dv_update_abs. apply (stable_add_method b m eq_refl).
+        * symmetry. apply origins_update. exact L.
+        * unfold abs_aw. cbn [with_awaiting with_docs awaiting origins documented].
+          rewrite Eo, last_ok_after_add by exact Hcl. reflexivity.
+      + rewrite norm_absn. apply agg_eq;
+          cbn [with_docs with_awaiting absn documented origins class_stack def_stack awaiting];
+          try reflexivity.
+        * symmetry. apply docs_update_invisible; [exact L|left; exact Eo].
+        * symmetry. apply origins_update. exact L.
+        * unfold abs_aw at 2. cbn [with_awaiting with_docs awaiting origins documented].
+          rewrite Eo. exact Haw.
+    - apply inv_with_awaiting; [apply inv_update; [apply is_class_add_method|exact Hinv]|].
+      cbn [with_docs documented]. rewrite length_update_nth. unfold aw_lt. cbn [aw_index].
+      apply class_at_lt. exact Hcl.
+  Qed.
+
+  Lemma member_undoc_abs : forall b c doc st,
+      inv st -> abs_aw st = AwNone ->
+      absn (process_member b c doc false st) = absn st /\ inv (process_member b c doc false st).
+  Proof.
+    intros b c doc st Hinv Haw. unfold process_member.
+    destruct (Nat.ltb (length (singles c)) 2); [split; [reflexivity|exact Hinv]|].
+    pose proof Hinv as (L & C & D & A).
+    destruct (class_stack st) as [|[cidx|] r] eqn:Ecs; try (split; [reflexivity|exact Hinv]).
+    set (m := {| m_name := nth 0 (singles c) []; m_doc := doc; m_parent := nth 1 (singles c) [];
+                 m_types := skipn 2 (singles c); m_params := []; m_ctor := b; m_macro := false;
+                 m_docd := false |}).
+    assert (Hcl : class_at (documented st) cidx) by (apply (inv_top_class st cidx r Hinv Ecs)).
+    split.
+    - apply agg_eq;
+        cbn [with_docs with_awaiting absn documented origins class_stack def_stack awaiting];
+        try reflexivity.
+      + apply docs_update_invisible; [exact L|right].
+        intros e _. rewrite doc_view_add_method. reflexivity.
+      + apply origins_update. exact L.
+      + unfold abs_aw at 1. cbn [with_awaiting with_docs awaiting origins documented].
+        rewrite last_ok_after_add by exact Hcl. cbn [m m_docd]. rewrite andb_false_r.
+        symmetry. exact Haw.
+    - apply inv_with_awaiting; [apply inv_update; [apply is_class_add_method|exact Hinv]|].
+      cbn [with_docs documented]. rewrite length_update_nth. unfold aw_lt. cbn [aw_index].
+      apply class_at_lt. exact Hcl.
+  Qed.
+
+  Lemma attr_doc_abs : forall c doc st,
+      inv st ->
+      norm (process_attr c doc true (absn st)) = absn (process_attr c doc true st)
+      /\ inv (process_attr c doc true st).
+  Proof.
+    intros c doc st Hinv. unfold process_attr.
+    destruct (Nat.ltb (length (singles c)) 2); [split; [apply norm_absn|exact Hinv]|].
+    cbn [absn class_stack].
+    destruct (class_stack st) as [|[cidx|] r] eqn:Ecs; cbn [map map_idx];
+      try (split; [apply norm_absn|exact Hinv]).
+    set (a := {| a_name := nth 1 (singles c) []; a_doc := doc; a_parent := nth 0 (singles c) [];
+                 a_default := nth_error (singles c) 2; a_docd := true |}).
+    split; [|apply inv_update; [apply is_class_add_attr|exact Hinv]].
+    destruct (orig (origins st) cidx) eqn:Eo.
+    - rewrite (absn_update_visible (add_attr a) (add_attr a) cidx st Hinv Eo)
+        by (try (intros e _; rewrite doc_view_add_attr; reflexivity); apply last_ok_add_attr).
+      apply norm_update_abs. apply (stable_add_attr a eq_refl).
+    - rewrite (absn_update_invisible (add_attr a) cidx st Hinv (or_introl Eo) (last_ok_add_attr a)).
+      apply norm_absn.
+  Qed.
+
+  Lemma attr_undoc_abs : forall c doc st,
+      inv st ->
+      absn (process_attr c doc false st) = absn st /\ inv (process_attr c doc false st).
+  Proof.
+    intros c doc st Hinv. unfold process_attr.
+    destruct (Nat.ltb (length (singles c)) 2); [split; [reflexivity|exact Hinv]|].
+    destruct (class_stack st) as [|[cidx|] r] eqn:Ecs; try (split; [reflexivity|exact Hinv]).
+    split; [|apply inv_update; [apply is_class_add_attr|exact Hinv]].
+    apply absn_update_invisible; [exact Hinv| |apply last_ok_add_attr].
+    right. intros e _. rewrite doc_view_add_attr. reflexivity.
+  Qed.
+
+  Lemma set_abs : forall c doc st st1,
+      inv st -> process_set c doc true st = Ok st1 ->
+      exists a1, process_set c doc true (absn st) = Ok a1 /\ norm a1 = absn st1 /\ inv st1.
+  Proof.
+    intros c doc st st1 Hinv H. unfold process_set in *.
+    destruct (singles c) as [|name vals].
+    { inversion H; subst. eexists. split; [reflexivity|]. split; [apply norm_absn|exact Hinv]. }
+    destruct vals as [|v [|v2 vals]].
+    - inversion H; subst. eexists. split; [reflexivity|]. apply append_abs; [exact Hinv|reflexivity].
+    - destruct (unquote v) as [v'|]; [|discriminate]. inversion H; subst.
+      eexists. split; [reflexivity|]. apply append_abs; [exact Hinv|reflexivity].
+    - inversion H; subst. eexists. split; [reflexivity|]. apply append_abs; [exact Hinv|reflexivity].
+  Qed.
+
+  Lemma add_test_abs : forall c doc st,
+      inv st ->
+      norm (process_add_test c doc true (absn st)) = absn (process_add_test c doc true st)
+      /\ inv (process_add_test c doc true st).
+  Proof.
+    intros c doc st Hinv. unfold process_add_test.
+    destruct (Nat.ltb (length (singles c)) 2); [split; [apply norm_absn|exact Hinv]|].
+    destruct (scan_name_idx (singles c) 0 (None, [])) as [[ix nm]|];
+      [|split; [apply norm_absn|exact Hinv]].
+    apply append_abs; [exact Hinv|reflexivity].
+  Qed.
+
+  Lemma option_abs : forall c doc st,
+      inv st ->
+      norm (process_option c doc true (absn st)) = absn (process_option c doc true st)
+      /\ inv (process_option c doc true st).
+  Proof.
+    intros c doc st Hinv. unfold process_option.
+    destruct (singles c) as [|a [|b [|v [|w r]]]];
+      try (split; [apply norm_absn|exact Hinv]);
+      (apply append_abs; [exact Hinv|reflexivity]).
+  Qed.
+
+  (* all handlers of a doccomment-carrying command *)
+  Lemma doc_handler_abs : forall h c doc st st1,
+      inv st ->
+      runh h c doc true st = Ok st1 ->
+      ((h = HMember \/ h = HCtor) -> abs_aw st = AwNone) ->
+      exists a1, runh h c doc true (absn st) = Ok a1 /\ norm a1 = absn st1 /\ inv st1.
+  Proof.
+    intros h c doc st st1 Hinv H Haw. destruct h; cbn [run_handler] in *.
+    - apply def_abs; assumption.
+    - apply def_abs; assumption.
+    - inversion H; subst. eexists. split; [reflexivity|]. apply cpa_abs. exact Hinv.
+    - inversion H; subst. eexists. split; [reflexivity|]. apply test_abs. exact Hinv.
+    - inversion H; subst. eexists. split; [reflexivity|]. apply test_abs. exact Hinv.
+    - apply set_abs; assumption.
+    - inversion H; subst. eexists. split; [reflexivity|]. apply class_abs. exact Hinv.
+    - inversion H; subst. eexists. split; [reflexivity|].
+      apply member_doc_abs; [exact Hinv|apply Haw; left; reflexivity].
+    - inversion H; subst. eexists. split; [reflexivity|].
+      apply member_doc_abs; [exact Hinv|apply Haw; right; reflexivity].
+    - inversion H; subst. eexists. split; [reflexivity|]. apply attr_doc_abs. exact Hinv.
+    - inversion H; subst. eexists. split; [reflexivity|]. apply add_test_abs. exact Hinv.
+    - inversion H; subst. eexists. split; [reflexivity|]. apply option_abs. exact Hinv.
+  Qed.
+
+
+  (* ---- (IV) handlers of commands without doccomment are invisible ------------------------- *)
+
+  Definition hidden_abs (h : handler) (a : agg) : agg :=
+    match h with
+    | HFunction | HMacro => with_def_stack (None :: def_stack a) a
+    | HClass => with_class_stack (None :: class_stack a) a
+    | _ => a
+    end.
+
+  Lemma def_undoc_abs : forall mac c st st',
+      inv st ->
+      process_def trigger strip_fn strip_mac mac c [] false st = Ok st' ->
+      absn st' = with_def_stack (None :: def_stack (absn st)) (absn st) /\ inv st'.
+  Proof.
+    intros mac c st st' Hinv H. unfold process_def in H.
+    destruct (singles c) as [|name ps]; [discriminate|]. inversion H; subst st'; clear H.
+    pose proof Hinv as (L & C & D & A). split.
+    - rewrite absn_with_def_stack, absn_append by exact Hinv.
+      cbn [append origins def_stack map]. rewrite (map_idx_new st false L).
+      rewrite (map_idx_stack_app _ _ (length (documented st))); [reflexivity|exact D|lia].
+    - apply inv_with_def_stack; [apply inv_append; exact Hinv|].
+      cbn [append documented def_stack]. rewrite app_length. cbn [length].
+      intros i [Hi|Hi]; [inversion Hi; lia|apply D in Hi; lia].
+  Qed.
+
+  Lemma class_undoc_abs : forall c st,
+      inv st -> singles c <> [] ->
+      absn (process_class c [] false st)
+      = with_class_stack (None :: class_stack (absn st)) (absn st)
+      /\ inv (process_class c [] false st).
+  Proof.
+    intros c st Hinv Hs. unfold process_class.
+    destruct (singles c) as [|name supers]; [contradiction|].
+    pose proof Hinv as (L & C & D & A).
+    set (newc := EClass name [] supers [] [] [] []).
+    assert (Hinv1 : inv (append newc false st)) by (apply inv_append; exact Hinv).
+    assert (Hnew : absn (append newc false st) = absn st).
+    { rewrite absn_append by exact Hinv. reflexivity. }
+    assert (Hpush : map (map_idx (origins st ++ [false])) (Some (length (documented st)) :: class_stack st)
+                    = None :: map (map_idx (origins st)) (class_stack st)).
+    { cbn [map]. rewrite (map_idx_new st false L). f_equal.
+      apply (map_idx_stack_app _ _ (length (documented st))); [|lia].
+      intros i Hi. apply class_at_lt. apply C. exact Hi. }
+    assert (Hnewat : class_at (documented st ++ [newc]) (length (documented st))).
+    { exists newc. split; [|reflexivity].
+      rewrite nth_error_app2 by lia. rewrite Nat.sub_diag. reflexivity. }
+    destruct (class_stack st) as [|[cidx|] r] eqn:Ecs.
+    - split.
+      + rewrite absn_with_class_stack. cbn [append origins class_stack]. rewrite Hnew, ?Ecs, Hpush.
+        apply agg_eq; cbn [with_class_stack absn documented origins class_stack def_stack awaiting];
+          rewrite ?Ecs; reflexivity.
+      + apply inv_with_class_stack; [exact Hinv1|].
+        cbn [append class_stack documented]. rewrite Ecs.
+        intros i [Hi|[]]. inversion Hi; subst. exact Hnewat.
+    - assert (Hinv2 : inv (with_docs (update_nth cidx (add_inner name)) (append newc false st))).
+      { apply inv_update; [apply is_class_add_inner|exact Hinv1]. }
+      split.
+      + rewrite absn_with_class_stack. cbn [with_docs append origins class_stack].
+        rewrite absn_update_invisible;
+          [|exact Hinv1|right; intros e _; apply doc_view_add_inner|apply last_ok_add_inner].
+        rewrite Hnew, ?Ecs, Hpush.
+        apply agg_eq; cbn [with_class_stack absn documented origins class_stack def_stack awaiting];
+          rewrite ?Ecs; reflexivity.
+      + apply inv_with_class_stack; [exact Hinv2|].
+        cbn [with_docs append class_stack documented]. rewrite Ecs.
+        intros i [Hi|Hi].
+        * inversion Hi; subst. apply class_at_update; [apply is_class_add_inner|exact Hnewat].
+        * apply class_at_update; [apply is_class_add_inner|]. apply class_at_app. apply C. exact Hi.
+    - split.
+      + rewrite absn_with_class_stack. cbn [append origins class_stack]. rewrite Hnew, ?Ecs, Hpush.
+        apply agg_eq; cbn [with_class_stack absn documented origins class_stack def_stack awaiting];
+          rewrite ?Ecs; reflexivity.
+      + apply inv_with_class_stack; [exact Hinv1|].
+        cbn [append class_stack documented]. rewrite Ecs.
+        intros i [Hi|[Hi|Hi]]; [inversion Hi; subst; exact Hnewat|discriminate Hi|].
+        apply class_at_app. apply C. right. exact Hi.
+  Qed.
+
+  Lemma test_undoc_abs : forall sec c st,
+      inv st -> abs_aw st = AwNone ->
+      absn (process_test sec c [] false st) = absn st /\ inv (process_test sec c [] false st).
+  Proof.
+    intros sec c st Hinv Haw. unfold process_test.
+    destruct (Nat.ltb (length (singles c)) 2); [split; [reflexivity|exact Hinv]|].
+    destruct (scan_name (singles c) []) as [name|]; [|split; [reflexivity|exact Hinv]].
+    pose proof Hinv as (L & C & D & A). split.
+    - apply agg_eq;
+        cbn [with_awaiting append absn documented origins class_stack def_stack awaiting].
+      + rewrite sel_app by exact L. cbn [sel]. rewrite app_nil_r. reflexivity.
+      + rewrite sel_app by exact L. cbn [sel]. rewrite app_nil_r. reflexivity.
+      + apply (map_idx_stack_app _ _ (length (documented st))); [|lia].
+        intros i Hi. apply class_at_lt. apply C. exact Hi.
+      + apply (map_idx_stack_app _ _ (length (documented st))); [exact D|lia].
+      + unfold abs_aw at 1. cbn [with_awaiting append awaiting origins documented].
+        rewrite L, orig_app_new. symmetry. exact Haw.
+    - apply inv_with_awaiting; [apply inv_append; exact Hinv|].
+      cbn [append documented]. unfold aw_lt. cbn [aw_index]. rewrite app_length. cbn [length]. lia.
+  Qed.
+
+  Lemma append_undoc_abs : forall e st,
+      inv st -> absn (append e false st) = absn st /\ inv (append e false st).
+  Proof.
+    intros e st Hinv. split; [|apply inv_append; exact Hinv].
+    rewrite absn_append by exact Hinv. reflexivity.
+  Qed.
+
+  Lemma undoc_handler_abs : forall h c st st',
+      inv st ->
+      runh h c [] false st = Ok st' ->
+      h <> HCpa ->
+      (h = HClass -> singles c <> []) ->
+      (h = HTest \/ h = HSection \/ h = HMember \/ h = HCtor -> abs_aw st = AwNone) ->
+      absn st' = hidden_abs h (absn st) /\ inv st'.
+  Proof.
+    intros h c st st' Hinv H Hcpa Hcls Haw. destruct h; cbn [run_handler hidden_abs] in *.
+    - apply (def_undoc_abs false c); assumption.
+    - apply (def_undoc_abs true c); assumption.
+    - contradiction Hcpa. reflexivity.
+    - inversion H; subst. apply test_undoc_abs; [exact Hinv|apply Haw; tauto].
+    - inversion H; subst. apply test_undoc_abs; [exact Hinv|apply Haw; tauto].
+    - unfold process_set in H. destruct (singles c) as [|name vals].
+      { inversion H; subst. split; [reflexivity|exact Hinv]. }
+      destruct vals as [|v [|v2 vals]].
+      + inversion H; subst. apply append_undoc_abs. exact Hinv.
+      + destruct (unquote v); [|discriminate]. inversion H; subst. apply append_undoc_abs. exact Hinv.
+      + inversion H; subst. apply append_undoc_abs. exact Hinv.
+    - inversion H; subst. apply class_undoc_abs; [exact Hinv|apply Hcls; reflexivity].
+    - inversion H; subst. apply member_undoc_abs; [exact Hinv|apply Haw; tauto].
+    - inversion H; subst. apply member_undoc_abs; [exact Hinv|apply Haw; tauto].
+    - inversion H; subst. apply attr_undoc_abs. exact Hinv.
+    - inversion H; subst. unfold process_add_test.
+      destruct (Nat.ltb (length (singles c)) 2); [split; [reflexivity|exact Hinv]|].
+      destruct (scan_name_idx (singles c) 0 (None, [])) as [[ix nm]|];
+        [apply append_undoc_abs; exact Hinv|split; [reflexivity|exact Hinv]].
+    - inversion H; subst. unfold process_option.
+      destruct (singles c) as [|a [|b [|v [|w r]]]];
+        try (split; [reflexivity|exact Hinv]); apply append_undoc_abs; exact Hinv.
+  Qed.
+
+  (* ---- a claimed definition ------------------------------------------------------------------ *)
+
+  Lemma claim_abs : forall mac extra st,
+      inv st ->
+      absn (with_awaiting AwNone (with_docs (upd_awaiting_entry (awaiting st) mac extra) st))
+      = with_awaiting AwNone (with_docs (upd_awaiting_entry (abs_aw st) mac extra) (absn st))
+      /\ inv (with_awaiting AwNone (with_docs (upd_awaiting_entry (awaiting st) mac extra) st)).
+  Proof.
+    intros mac extra st Hinv. pose proof Hinv as (L & C & D & A). split.
+    - apply agg_eq;
+        cbn [with_awaiting with_docs absn documented origins class_stack def_stack awaiting];
+        try reflexivity.
+      + rewrite !upd_awaiting_entry_claim. unfold abs_aw.
+        destruct (awaiting st) as [|i|i b] eqn:Ea; cbn [aw_index]; [reflexivity| |].
+        * destruct (orig (origins st) i) eqn:Eo; cbn [aw_index].
+          -- apply (docs_update_visible _ _ i st L Eo). intros e _. apply doc_view_claim_top.
+          -- apply docs_update_invisible; [exact L|left; exact Eo].
+        * destruct (orig (origins st) i) eqn:Eo; cbn [andb aw_index].
+          -- destruct (last_ok b (nth i (documented st) dummy_entry)) eqn:El; cbn [aw_index].
+             ++ apply (docs_update_visible _ _ i st L Eo). intros e He.
+                rewrite (doc_view_claim_method i (rank (origins st) i)).
+                rewrite (nth_error_nth _ _ dummy_entry He) in El. rewrite El. reflexivity.
+             ++ apply docs_update_invisible; [exact L|right]. intros e He.
+                rewrite (doc_view_claim_method i i).
+                rewrite (nth_error_nth _ _ dummy_entry He) in El. rewrite El. reflexivity.
+          -- apply docs_update_invisible; [exact L|left; exact Eo].
+      + rewrite upd_awaiting_entry_claim.
+        destruct (aw_index (awaiting st)) as [i|]; [apply origins_update; exact L|reflexivity].
+    - apply inv_with_awaiting; [|exact I].
+      destruct (awaiting st) as [|i|i b]; cbn [upd_awaiting_entry].
+      + destruct Hinv as (L' & C' & D' & A'). repeat split; assumption.
+      + apply inv_update; [|exact Hinv]. intros e. destruct e; reflexivity.
+      + apply inv_update; [|exact Hinv]. intros e. destruct e; try reflexivity.
+        destruct b; reflexivity.
+  Qed.
+
+  Lemma norm_claim : forall a mac extra st,
+      norm (with_awaiting AwNone (with_docs (upd_awaiting_entry a mac extra) (absn st)))
+      = with_awaiting AwNone (with_docs (upd_awaiting_entry a mac extra) (absn st)).
+  Proof.
+    intros a mac extra st. apply agg_eq;
+      cbn [norm with_awaiting with_docs absn documented origins class_stack def_stack awaiting];
+      try reflexivity.
+    rewrite upd_awaiting_entry_claim. destruct (aw_index a) as [i|].
+    - apply map_dv_update_abs. apply stable_claim.
+    - apply map_doc_view_idem.
+  Qed.
+
+  Lemma abs_aw_kind : forall st,
+      match abs_aw st with
+      | AwNone => True
+      | AwTop _ => exists i, awaiting st = AwTop i
+      | AwMethod _ b => exists i, awaiting st = AwMethod i b
+      end.
+  Proof.
+    intros st. unfold abs_aw. destruct (awaiting st) as [|i|i b]; [exact I| |].
+    - destruct (orig (origins st) i); [eexists; reflexivity|exact I].
+    - destruct (orig (origins st) i && last_ok b (nth i (documented st) dummy_entry));
+        [eexists; reflexivity|exact I].
+  Qed.
+
+
+  (* ---- enter_command by command kind (equations) ------------------------------------------------ *)
+
+  Ltac kprep Hk :=
+    unfold enter_command; cbv zeta; unfold cmd_kind in Hk; rewrite Hk;
+    eval_closed; eval_lookup;
+    cbn [andb orb negb kind_name].
+
+  Definition params_of (a : await) (raw : list str) : list str :=
+    match a with AwMethod _ _ => map strip_mem raw | _ => raw end.
+
+  Definition is_plain_handler (h : handler) : bool :=
+    match h with
+    | HTest | HSection | HMember | HCtor | HAttr | HAddTest | HOption => true
+    | _ => false
+    end.
+
+  Lemma enter_command_def_eq : forall fl consumed c st h,
+      h = HFunction \/ h = HMacro -> cmd_kind c = kind_name h ->
+      entercmd fl consumed c st
+      = if match awaiting st with AwNone => false | _ => true end
+        then
+          let st2 := with_awaiting AwNone
+                       (with_docs (upd_awaiting_entry (awaiting st)
+                                     (str_eqb (kind_name h) (s"macro"))
+                                     (skipn 2 (params_of (awaiting st) (singles c)))) st) in
+          Ok (if consumed then st2 else with_def_stack (None :: def_stack st2) st2)
+        else if consumed then Ok st
+             else match include_flag fl h with
+                  | Some true => runh h c [] false st
+                  | Some false => Ok (with_def_stack (None :: def_stack st) st)
+                  | None => Crash
+                  end.
+  Proof.
+    intros fl consumed c st h Hh Hk.
+    destruct Hh; subst h; kprep Hk; rewrite skipn2_guard; unfold params_of;
+      destruct (match awaiting st with AwNone => false | _ => true end);
+      destruct consumed; cbn [negb]; try reflexivity;
+      cbn [include_flag]; (destruct (inc_function fl) || destruct (inc_macro fl)); reflexivity.
+  Qed.
+
+  Lemma enter_command_class_eq : forall fl consumed c st,
+      cmd_kind c = s"cpp_class" ->
+      entercmd fl consumed c st
+      = if inc_cpp_class fl
+        then (if consumed then Ok st else Ok (process_class c [] false st))
+        else Ok (with_class_stack (None :: class_stack st) st).
+  Proof.
+    intros fl consumed c st Hk. kprep Hk. cbn [include_flag run_handler].
+    destruct (inc_cpp_class fl); destruct consumed; reflexivity.
+  Qed.
+
+  Lemma enter_command_end_class_eq : forall fl consumed c st,
+      cmd_kind c = s"cpp_end_class" ->
+      entercmd fl consumed c st
+      = match class_stack st with [] => Crash | _ :: cs => Ok (with_class_stack cs st) end.
+  Proof. intros fl consumed c st Hk. kprep Hk. reflexivity. Qed.
+
+  Lemma enter_command_cpa_eq : forall fl consumed c st,
+      cmd_kind c = s"cmake_parse_arguments" ->
+      entercmd fl consumed c st = Ok (process_cpa st).
+  Proof. intros fl consumed c st Hk. kprep Hk. reflexivity. Qed.
+
+  Lemma enter_command_end_def_eq : forall fl consumed c st,
+      cmd_kind c = s"endfunction" \/ cmd_kind c = s"endmacro" ->
+      entercmd fl consumed c st
+      = match def_stack st with [] => Crash | _ :: ds => Ok (with_def_stack ds st) end.
+  Proof. intros fl consumed c st [Hk|Hk]; kprep Hk; reflexivity. Qed.
+
+  Lemma enter_command_set_eq : forall fl consumed c st,
+      cmd_kind c = s"set" -> entercmd fl consumed c st = Ok st.
+  Proof. intros fl consumed c st Hk. kprep Hk. reflexivity. Qed.
+
+  Lemma enter_command_plain_eq : forall fl consumed c st h,
+      is_plain_handler h = true -> cmd_kind c = kind_name h ->
+      entercmd fl consumed c st
+      = if consumed then Ok st
+        else match include_flag fl h with
+             | Some true => runh h c [] false st
+             | Some false => Ok st
+             | None => Crash
+             end.
+  Proof.
+    intros fl consumed c st h Hp Hk.
+    destruct h; try discriminate Hp; kprep Hk; destruct consumed; reflexivity.
+  Qed.
+
+  Lemma lookup_none_kind : forall k h,
+      lookup k handler_table = None -> str_eqb k (kind_name h) = false.
+  Proof.
+    intros k h L. destruct (str_eqb k (kind_name h)) eqn:E; [|reflexivity].
+    apply str_eqb_eq in E. subst k. rewrite lookup_kind_name in L. discriminate L.
+  Qed.
+
+  Lemma enter_command_other_eq : forall fl consumed c st,
+      lookup (cmd_kind c) handler_table = None ->
+      cmd_kind c <> s"cpp_end_class" -> cmd_kind c <> s"endfunction" -> cmd_kind c <> s"endmacro" ->
+      entercmd fl consumed c st = Ok st.
+  Proof.
+    intros fl consumed c st L N1 N2 N3.
+    apply str_eqb_neq in N1, N2, N3.
+    pose proof (lookup_none_kind _ HClass L) as E1.
+    pose proof (lookup_none_kind _ HCpa L) as E2.
+    pose proof (lookup_none_kind _ HFunction L) as E3.
+    pose proof (lookup_none_kind _ HMacro L) as E4.
+    cbn [kind_name] in E1, E2, E3, E4.
+    unfold enter_command. cbv zeta. fold (cmd_kind c). unfold is_def_name.
+    rewrite E1, E2, E3, E4, N1, N2, N3, L. cbn [andb orb].
+    destruct (negb (str_eqb (cmd_kind c) (s"set")) && negb consumed); reflexivity.
+  Qed.
+
+  Inductive kcase (k : str) : Prop :=
+  | KHandler (h : handler) : k = kind_name h -> kcase k
+  | KEndClass : k = s"cpp_end_class" -> kcase k
+  | KEndDef : k = s"endfunction" \/ k = s"endmacro" -> kcase k
+  | KOther : lookup k handler_table = None -> k <> s"cpp_end_class" -> k <> s"endfunction" ->
+             k <> s"endmacro" -> kcase k.
+
+  Lemma kind_cases : forall k, kcase k.
+  Proof.
+    intros k. destruct (lookup k handler_table) as [h|] eqn:L.
+    - apply (KHandler k h). apply lookup_handler_kind. exact L.
+    - destruct (str_eqb k (s"cpp_end_class")) eqn:E1;
+        [apply KEndClass; apply str_eqb_eq; exact E1|].
+      destruct (str_eqb k (s"endfunction")) eqn:E2;
+        [apply KEndDef; left; apply str_eqb_eq; exact E2|].
+      destruct (str_eqb k (s"endmacro")) eqn:E3;
+        [apply KEndDef; right; apply str_eqb_eq; exact E3|].
+      apply KOther; try exact L; apply str_eqb_neq; assumption.
+  Qed.
+
+
+  (* ---- enter_command commutes with the abstraction ------------------------------------------------ *)
+
+  Lemma norm_with_def_stack : forall ds a, norm (with_def_stack ds a) = with_def_stack ds (norm a).
+  Proof. intros ds a. apply agg_eq; reflexivity. Qed.
+  Lemma norm_with_class_stack : forall cs a,
+      norm (with_class_stack cs a) = with_class_stack cs (norm a).
+  Proof. intros cs a. apply agg_eq; reflexivity. Qed.
+
+  Lemma include_flag_off_def : forall h, h = HFunction \/ h = HMacro ->
+      include_flag flags_off h = Some false.
+  Proof. intros h [H|H]; subst; reflexivity. Qed.
+
+  Lemma include_flag_off_plain : forall h, is_plain_handler h = true ->
+      include_flag flags_off h = Some false.
+  Proof. intros h H; destruct h; try discriminate H; reflexivity. Qed.
+
+  Lemma aw_none_of_match : forall a, match a with AwNone => false | _ => true end = false -> a = AwNone.
+  Proof. intros a H; destruct a; try discriminate H; reflexivity. Qed.
+
+  Lemma enter_def_abs : forall fl consumed c st st' h,
+      h = HFunction \/ h = HMacro -> cmd_kind c = kind_name h ->
+      inv st ->
+      entercmd fl consumed c st = Ok st' ->
+      exists a2, entercmd (if consumed then default_flags else flags_off) consumed c (absn st) = Ok a2
+                 /\ norm a2 = absn st' /\ inv st'.
+  Proof.
+    intros fl consumed c st st' h Hh Hk Hinv H.
+    rewrite (enter_command_def_eq fl consumed c st h Hh Hk) in H.
+    rewrite (enter_command_def_eq _ consumed c (absn st) h Hh Hk).
+    change (awaiting (absn st)) with (abs_aw st).
+    set (mac := str_eqb (kind_name h) (s"macro")) in *.
+    destruct (match awaiting st with AwNone => false | _ => true end) eqn:Em.
+    - (* claimed in the concrete run *)
+      cbv zeta in H.
+      set (extra := skipn 2 (params_of (awaiting st) (singles c))) in *.
+      destruct (claim_abs mac extra st Hinv) as [Hc Hi2].
+      set (st2 := with_awaiting AwNone (with_docs (upd_awaiting_entry (awaiting st) mac extra) st)) in *.
+      assert (Hst' : st' = if consumed then st2 else with_def_stack (None :: def_stack st2) st2)
+        by (inversion H; reflexivity).
+      clear H.
+      assert (Hinv' : inv st').
+      { rewrite Hst'. destruct consumed; [exact Hi2|apply inv_push_none_def; exact Hi2]. }
+      destruct (match abs_aw st with AwNone => false | _ => true end) eqn:Em2.
+      + (* also claimed abstractly *)
+        assert (Hp : params_of (abs_aw st) (singles c) = params_of (awaiting st) (singles c)).
+        { pose proof (abs_aw_kind st) as K. destruct (abs_aw st) as [|r|r b]; [discriminate Em2| |];
+            destruct K as [i K]; rewrite K; reflexivity. }
+        cbv zeta. rewrite Hp. fold extra. eexists. split; [reflexivity|]. split; [|exact Hinv'].
+        rewrite Hst'. destruct consumed.
+        * rewrite norm_claim. symmetry. exact Hc.
+        * rewrite norm_with_def_stack, norm_claim, absn_with_def_stack, Hc. reflexivity.
+      + (* invisible claim *)
+        apply aw_none_of_match in Em2.
+        assert (Hc' : absn st2 = absn st).
+        { rewrite Hc, Em2. apply agg_eq; try reflexivity. cbn [with_awaiting awaiting absn].
+          symmetry. exact Em2. }
+        destruct consumed.
+        * eexists. split; [reflexivity|]. split; [|exact Hinv'].
+          rewrite norm_absn, Hst'. symmetry. exact Hc'.
+        * rewrite (include_flag_off_def h Hh). eexists. split; [reflexivity|]. split; [|exact Hinv'].
+          rewrite norm_with_def_stack, norm_absn, Hst', absn_with_def_stack, Hc'. reflexivity.
+    - (* not claimed *)
+      apply aw_none_of_match in Em.
+      assert (Haw : abs_aw st = AwNone) by (unfold abs_aw; rewrite Em; reflexivity).
+      rewrite Haw. destruct consumed.
+      + inversion H; subst st'. eexists. split; [reflexivity|]. split; [apply norm_absn|exact Hinv].
+      + rewrite (include_flag_off_def h Hh). eexists. split; [reflexivity|].
+        rewrite norm_with_def_stack, norm_absn.
+        destruct (include_flag fl h) as [[|]|]; [| |discriminate H].
+        * destruct (undoc_handler_abs h c st st' Hinv H) as [Ha Hi].
+          -- destruct Hh; subst h; discriminate.
+          -- destruct Hh; subst h; discriminate.
+          -- intros [X|[X|[X|X]]]; destruct Hh; subst h; discriminate X.
+          -- split; [|exact Hi]. rewrite Ha. destruct Hh; subst h; reflexivity.
+        * inversion H; subst st'. split; [|apply inv_push_none_def; exact Hinv].
+          rewrite absn_with_def_stack. reflexivity.
+  Qed.
+
+  Lemma decl_kind_of_handler : forall h,
+      h = HTest \/ h = HSection \/ h = HMember \/ h = HCtor -> is_decl_kind (kind_name h) = true.
+  Proof. intros h [X|[X|[X|X]]]; subst; reflexivity. Qed.
+
+  Lemma enter_command_abs : forall fl consumed c st st',
+      inv st ->
+      entercmd fl consumed c st = Ok st' ->
+      (cmd_kind c = s"cpp_class" ->
+       if consumed then inc_cpp_class fl = true
+       else (inc_cpp_class fl = false \/ singles c <> [])) ->
+      (consumed = false -> is_decl_kind (cmd_kind c) = true -> abs_aw st = AwNone) ->
+      exists a2, entercmd (if consumed then default_flags else flags_off) consumed c (absn st) = Ok a2
+                 /\ norm a2 = absn st' /\ inv st'.
+  Proof.
+    intros fl consumed c st st' Hinv H Hcls Hdecl.
+    destruct (kind_cases (cmd_kind c)) as [h Hk|Hk|Hk|L N1 N2 N3].
+    - assert (Hcases : (h = HFunction \/ h = HMacro) \/ h = HCpa \/ h = HSet \/ h = HClass
+                       \/ is_plain_handler h = true) by (destruct h; cbn; tauto).
+      destruct Hcases as [Hh|[Hh|[Hh|[Hh|Hh]]]].
+      + apply (enter_def_abs fl consumed c st st' h Hh Hk Hinv H).
+      + subst h. rewrite (enter_command_cpa_eq _ _ _ _ Hk) in H; rewrite (enter_command_cpa_eq _ _ _ _ Hk). inversion H; subst st'.
+        eexists. split; [reflexivity|]. apply cpa_abs. exact Hinv.
+      + subst h. rewrite (enter_command_set_eq _ _ _ _ Hk) in H; rewrite (enter_command_set_eq _ _ _ _ Hk). inversion H; subst st'.
+        eexists. split; [reflexivity|]. split; [apply norm_absn|exact Hinv].
+      + subst h. cbn [kind_name] in Hk. specialize (Hcls Hk).
+        rewrite (enter_command_class_eq _ _ _ _ Hk) in H; rewrite (enter_command_class_eq _ _ _ _ Hk).
+        destruct consumed.
+        * rewrite Hcls in H. inversion H; subst st'. cbn [inc_cpp_class default_flags].
+          eexists. split; [reflexivity|]. split; [apply norm_absn|exact Hinv].
+        * cbn [inc_cpp_class flags_off]. eexists. split; [reflexivity|].
+          rewrite norm_with_class_stack, norm_absn.
+          destruct (inc_cpp_class fl) eqn:Efl.
+          -- destruct Hcls as [Hcls|Hcls]; [discriminate Hcls|].
+             inversion H; subst st'.
+             destruct (class_undoc_abs c st Hinv Hcls) as [Ha Hi]. split; [symmetry; exact Ha|exact Hi].
+          -- inversion H; subst st'. split; [|apply inv_push_none_class; exact Hinv].
+             rewrite absn_with_class_stack. reflexivity.
+      + rewrite (enter_command_plain_eq _ _ _ _ h Hh Hk) in H; rewrite (enter_command_plain_eq _ _ _ _ h Hh Hk).
+        destruct consumed.
+        * inversion H; subst st'. eexists. split; [reflexivity|].
+          split; [apply norm_absn|exact Hinv].
+        * rewrite (include_flag_off_plain h Hh). eexists. split; [reflexivity|].
+          rewrite norm_absn.
+          destruct (include_flag fl h) as [[|]|]; [| |discriminate H].
+          -- destruct (undoc_handler_abs h c st st' Hinv H) as [Ha Hi].
+             ++ intros X; subst h; discriminate Hh.
+             ++ intros X; subst h; discriminate Hh.
+             ++ intros X. apply (Hdecl eq_refl). rewrite Hk. apply decl_kind_of_handler. exact X.
+             ++ split; [|exact Hi]. rewrite Ha. destruct h; try discriminate Hh; reflexivity.
+          -- inversion H; subst st'. split; [reflexivity|exact Hinv].
+    - rewrite (enter_command_end_class_eq _ _ _ _ Hk) in H; rewrite (enter_command_end_class_eq _ _ _ _ Hk).
+      change (class_stack (absn st)) with (map (map_idx (origins st)) (class_stack st)).
+      destruct (class_stack st) as [|x cs] eqn:Ecs; [discriminate H|]. inversion H; subst st'.
+      cbn [map]. eexists. split; [reflexivity|].
+      rewrite norm_with_class_stack, norm_absn, absn_with_class_stack. split; [reflexivity|].
+      apply inv_with_class_stack; [exact Hinv|]. apply (inv_stack_tail st x cs Hinv Ecs).
+    - rewrite (enter_command_end_def_eq _ _ _ _ Hk) in H; rewrite (enter_command_end_def_eq _ _ _ _ Hk).
+      change (def_stack (absn st)) with (map (map_idx (origins st)) (def_stack st)).
+      destruct (def_stack st) as [|x ds] eqn:Eds; [discriminate H|]. inversion H; subst st'.
+      cbn [map]. eexists. split; [reflexivity|].
+      rewrite norm_with_def_stack, norm_absn, absn_with_def_stack. split; [reflexivity|].
+      apply inv_with_def_stack; [exact Hinv|].
+      intros i Hi. destruct Hinv as (_ & _ & D & _). apply D. rewrite Eds. right. exact Hi.
+    - rewrite (enter_command_other_eq _ _ _ _ L N1 N2 N3) in H; rewrite (enter_command_other_eq _ _ _ _ L N1 N2 N3). inversion H; subst st'.
+      eexists. split; [reflexivity|]. split; [apply norm_absn|exact Hinv].
+  Qed.
+
+
+  (* ---- the documented-only machine ------------------------------------------------------------------ *)
+
+  Definition unnamed_class_cmd (c : cmd) : bool :=
+    kind_is c (s"cpp_class") && match singles c with [] => true | _ :: _ => false end.
+
+  (* b: an argument-less undocumented cpp_class is ignored (class option on) rather than
+     pushing a hidden frame (class option off) *)
+  Definition abs_step (b : bool) (a : agg) (e : element) : result agg :=
+    match e with
+    | EDocCmd d c =>
+        match enterdoc d c a with
+        | Ok a1 => match entercmd default_flags true c (norm a1) with
+                   | Ok a2 => Ok (norm a2)
+                   | Crash => Crash
+                   end
+        | Crash => Crash
+        end
+    | ECmd c =>
+        if unnamed_class_cmd c && b then Ok a
+        else match entercmd flags_off false c a with
+             | Ok a2 => Ok (norm a2)
+             | Crash => Crash
+             end
+    | EDangling _ => Ok a
+    end.
+
+  Fixpoint abs_run (b : bool) (a : agg) (es : list element) : result agg :=
+    match es with
+    | [] => Ok a
+    | e :: r => match abs_step b a e with
+                | Ok a1 => abs_run b a1 r
+                | Crash => Crash
+                end
+    end.
+
+  Definition elem_ok (fl : flags) (b : bool) (e : element) : Prop :=
+    match e with
+    | EDocCmd _ c => cmd_kind c = s"cpp_class" -> inc_cpp_class fl = true
+    | ECmd c => unnamed_class_cmd c = true -> inc_cpp_class fl = b
+    | EDangling _ => True
+    end.
+
+  Lemma decl_not_def : forall k, is_decl_kind k = true -> is_def_name k = false.
+  Proof.
+    intros k H. unfold is_decl_kind in H.
+    repeat (apply orb_true_iff in H; destruct H as [H|H]);
+      apply str_eqb_eq in H; subst k; reflexivity.
+  Qed.
+
+  Lemma decl_kind_prop : forall k, is_decl_kind k = false -> ~ k_decl_cmd k.
+  Proof.
+    intros k H X. unfold k_decl_cmd in X.
+    destruct X as [X|[X|[X|X]]]; subst k; discriminate H.
+  Qed.
+
+  Lemma step_abs : forall fl b st e st',
+      inv st ->
+      step fl st e = Ok st' ->
+      elem_ok fl b e ->
+      (abs_aw st = AwNone \/ elem_is_def e = true) ->
+      abs_step b (absn st) e = Ok (absn st') /\ inv st'.
+  Proof.
+    intros fl b st e st' Hinv H Hok Hpre. destruct e as [d c|c|d].
+    - cbn [agg_step] in H. destruct (enterdoc d c st) as [st1|] eqn:E1; [|discriminate H].
+      assert (Hdoc : exists a1, enterdoc d c (absn st) = Ok a1 /\ norm a1 = absn st1 /\ inv st1).
+      { unfold enter_documented in E1 |- *.
+        destruct (lookup (lower_ascii (c_name c)) handler_table) as [h|] eqn:L.
+        - apply doc_handler_abs; [exact Hinv|exact E1|].
+          intros Hm. destruct Hpre as [Hp|Hp]; [exact Hp|].
+          apply lookup_handler_kind in L. unfold elem_is_def in Hp. cbn [elem_kind] in Hp.
+          unfold cmd_kind in Hp. rewrite L in Hp. destruct Hm; subst h; discriminate Hp.
+        - inversion E1; subst st1. eexists. split; [reflexivity|].
+          unfold process_generic. apply append_abs; [exact Hinv|reflexivity]. }
+      destruct Hdoc as (a1 & Ea & Hn & Hi1).
+      destruct (enter_command_abs fl true c st1 st' Hi1 H) as (a2 & E2 & Hn2 & Hi2).
+      + exact Hok.
+      + intros X; discriminate X.
+      + cbn [abs_step]. rewrite Ea, Hn, E2, Hn2. split; [reflexivity|exact Hi2].
+    - cbn [agg_step] in H. cbn [abs_step].
+      assert (Hdecl : false = false -> is_decl_kind (cmd_kind c) = true -> abs_aw st = AwNone).
+      { intros _ Hd. destruct Hpre as [Hp|Hp]; [exact Hp|].
+        unfold elem_is_def in Hp. cbn [elem_kind] in Hp.
+        rewrite (decl_not_def _ Hd) in Hp. discriminate Hp. }
+      destruct (unnamed_class_cmd c) eqn:Eu.
+      + cbn [elem_ok] in Hok. specialize (Hok Eu).
+        unfold unnamed_class_cmd in Eu. apply andb_true_iff in Eu. destruct Eu as [Ek Es].
+        unfold kind_is in Ek. apply str_eqb_eq in Ek.
+        destruct b; cbn [andb].
+        * rewrite (enter_command_class_eq _ _ _ _ Ek), Hok in H.
+          destruct (singles c) as [|x r] eqn:Hs; [|discriminate Es].
+          rewrite (class_no_args_noop c [] false st Hs) in H. inversion H; subst st'.
+          split; [reflexivity|exact Hinv].
+        * destruct (enter_command_abs fl false c st st' Hinv H) as (a2 & E2 & Hn2 & Hi2).
+          -- intros _. left. exact Hok.
+          -- exact Hdecl.
+          -- rewrite E2, Hn2. split; [reflexivity|exact Hi2].
+      + cbn [andb].
+        destruct (enter_command_abs fl false c st st' Hinv H) as (a2 & E2 & Hn2 & Hi2).
+        * intros Hk. right. intros Hs. unfold unnamed_class_cmd, kind_is in Eu.
+          rewrite Hk, Hs in Eu. discriminate Eu.
+        * exact Hdecl.
+        * rewrite E2, Hn2. split; [reflexivity|exact Hi2].
+    - cbn [agg_step] in H. inversion H; subst st'. split; [reflexivity|exact Hinv].
+  Qed.
+
+  (* after a step the abstract awaiting slot is empty unless the element was a declaration *)
+  Lemma abs_step_aw : forall b a e a',
+      abs_step b a e = Ok a' ->
+      (awaiting a = AwNone \/ elem_is_def e = true) ->
+      elem_is_decl e = true \/ awaiting a' = AwNone.
+  Proof.
+    intros b a e a' H Hpre.
+    destruct e as [d c|c|d].
+    - unfold elem_is_decl, elem_is_def in *. cbn [elem_kind] in *.
+      destruct (is_decl_kind (cmd_kind c)) eqn:Edecl; [left; reflexivity|right].
+      cbn [abs_step] in H.
+      destruct (enterdoc d c a) as [a1|] eqn:E1; [|discriminate H].
+      destruct (entercmd default_flags true c (norm a1)) as [a2|] eqn:E2; [|discriminate H].
+      inversion H; subst a'. cbn [norm with_docs awaiting].
+      destruct (is_def_name (cmd_kind c)) eqn:Edef.
+      + assert (Hh : exists h, (h = HFunction \/ h = HMacro) /\ cmd_kind c = kind_name h).
+        { unfold is_def_name in Edef. apply orb_true_iff in Edef.
+          destruct Edef as [X|X]; apply str_eqb_eq in X;
+            [exists HFunction|exists HMacro]; split; auto. }
+        destruct Hh as (h & Hh & Hk).
+        rewrite (enter_command_def_eq _ _ _ _ h Hh Hk) in E2.
+        destruct (match awaiting (norm a1) with AwNone => false | _ => true end) eqn:Em.
+        * cbv zeta in E2. inversion E2; subst a2. reflexivity.
+        * inversion E2; subst a2. apply aw_none_of_match. exact Em.
+      + destruct Hpre as [Hp|Hp]; [|discriminate Hp].
+        apply (enter_documented_frame trigger strip_fn strip_mac strip_mem) in E1. destruct E1 as (_ & A1 & _).
+        apply enter_command_frame in E2. destruct E2 as (_ & A2 & _).
+        rewrite A2 by (try exact Edef; apply decl_kind_prop; exact Edecl).
+        cbn [norm with_docs awaiting]. rewrite A1 by (apply decl_kind_prop; exact Edecl). exact Hp.
+    - unfold elem_is_decl, elem_is_def in *. cbn [elem_kind] in *.
+      destruct (is_decl_kind (cmd_kind c)) eqn:Edecl; [left; reflexivity|right].
+      cbn [abs_step] in H.
+      destruct (is_def_name (cmd_kind c)) eqn:Edef.
+      + assert (Hh : exists h, (h = HFunction \/ h = HMacro) /\ cmd_kind c = kind_name h).
+        { unfold is_def_name in Edef. apply orb_true_iff in Edef.
+          destruct Edef as [X|X]; apply str_eqb_eq in X;
+            [exists HFunction|exists HMacro]; split; auto. }
+        destruct Hh as (h & Hh & Hk).
+        assert (Hu : unnamed_class_cmd c = false).
+        { unfold unnamed_class_cmd, kind_is. rewrite Hk. destruct Hh; subst h; reflexivity. }
+        rewrite Hu in H. cbn [andb] in H.
+        rewrite (enter_command_def_eq _ _ _ _ h Hh Hk) in H.
+        destruct (match awaiting a with AwNone => false | _ => true end) eqn:Em.
+        * cbv zeta in H. inversion H; subst a'. reflexivity.
+        * rewrite (include_flag_off_def h Hh) in H. inversion H; subst a'.
+          cbn [norm with_docs with_def_stack awaiting]. apply aw_none_of_match. exact Em.
+      + destruct Hpre as [Hp|Hp]; [|discriminate Hp].
+        destruct (unnamed_class_cmd c && b); [inversion H; subst a'; exact Hp|].
+        destruct (entercmd flags_off false c a) as [a2|] eqn:E2; [|discriminate H].
+        inversion H; subst a'. cbn [norm with_docs awaiting].
+        apply enter_command_frame in E2. destruct E2 as (_ & A2 & _).
+        rewrite A2 by (try exact Edef; apply decl_kind_prop; exact Edecl). exact Hp.
+    - cbn [abs_step] in H. inversion H; subst a'. right.
+      destruct Hpre as [Hp|Hp]; [exact Hp|discriminate Hp].
+  Qed.
+
+  Lemma run_abs : forall fl b es st st',
+      inv st ->
+      run fl st es = Ok st' ->
+      (forall e, In e es -> elem_ok fl b e) ->
+      decls_followed es = true ->
+      (abs_aw st = AwNone \/ match es with e :: _ => elem_is_def e = true | [] => True end) ->
+      abs_run b (absn st) es = Ok (absn st').
+  Proof.
+    intros fl b es. induction es as [|e r IH]; intros st st' Hinv H Hok Hdf Hpre.
+    - cbn in H |- *. inversion H; reflexivity.
+    - cbn [agg_run] in H. destruct (step fl st e) as [st1|] eqn:E; [|discriminate H].
+      assert (Hpre1 : abs_aw st = AwNone \/ elem_is_def e = true) by exact Hpre.
+      destruct (step_abs fl b st e st1 Hinv E (Hok e (or_introl eq_refl)) Hpre1) as [Ha Hi1].
+      cbn [abs_run]. rewrite Ha.
+      cbn [decls_followed] in Hdf. apply andb_true_iff in Hdf. destruct Hdf as [Hd1 Hd2].
+      apply (IH st1 st' Hi1 H); [intros e' He'; apply Hok; right; exact He'|exact Hd2|].
+      pose proof (abs_step_aw b (absn st) e (absn st1) Ha) as Hpost.
+      change (awaiting (absn st)) with (abs_aw st) in Hpost.
+      change (awaiting (absn st1)) with (abs_aw st1) in Hpost.
+      destruct (Hpost Hpre1) as [Hdecl|Hnone]; [|left; exact Hnone].
+      right. rewrite Hdecl in Hd1. destruct r as [|e2 r2]; [exact I|exact Hd1].
+  Qed.
+
+
+  Lemma no_F9_elem_ok : forall fl es,
+      no_F9 fl es = true ->
+      (forall e, In e es -> elem_ok fl (inc_cpp_class fl) e)
+      /\ (forall e, In e es -> elem_ok default_flags (inc_cpp_class fl) e).
+  Proof.
+    intros fl es H. unfold no_F9 in H. split; intros e He; destruct e as [d c|c|d]; cbn [elem_ok];
+      try exact I; try reflexivity.
+    - intros Hk. destruct (inc_cpp_class fl); [reflexivity|]. cbn [orb] in H.
+      apply andb_true_iff in H. destruct H as [H _]. apply negb_true_iff in H.
+      assert (X : existsb is_doc_class_elem es = true).
+      { apply existsb_exists. exists (EDocCmd d c). split; [exact He|].
+        cbn [is_doc_class_elem]. unfold kind_is. rewrite Hk. reflexivity. }
+      rewrite X in H. discriminate H.
+    - intros Hu. destruct (inc_cpp_class fl); [reflexivity|]. cbn [orb] in H.
+      apply andb_true_iff in H. destruct H as [_ H]. apply negb_true_iff in H.
+      assert (X : existsb is_unnamed_class_elem es = true).
+      { apply existsb_exists. exists (ECmd c). split; [exact He|exact Hu]. }
+      rewrite X in H. discriminate H.
+  Qed.
+
+  (* G5, corrected: under no_F9 and decls_followed every setting yields the same entries from
+     doccomment-carrying commands as the default setting *)
+  Theorem documented_entries_stable : forall fl f st_fl st_def,
+      no_F9 fl (f_elems f) = true ->
+      decls_followed (f_elems f) = true ->
+      aggregate fl trigger strip_fn strip_mac strip_mem f = Ok st_fl ->
+      aggregate default_flags trigger strip_fn strip_mac strip_mem f = Ok st_def ->
+      map doc_view (from_doc st_fl) = map doc_view (from_doc st_def).
+  Proof.
+    intros fl f st_fl st_def HF9 Hdf Hfl Hdef. unfold aggregate in Hfl, Hdef.
+    set (st0 := match f_module f with
+                | Some t => append (module_entry t) true agg_init
+                | None => agg_init
+                end) in *.
+    assert (Hinv0 : inv st0).
+    { unfold st0. destruct (f_module f); [apply inv_append|]; apply inv_init. }
+    assert (Haw0 : abs_aw st0 = AwNone).
+    { unfold st0. destruct (f_module f); reflexivity. }
+    destruct (no_F9_elem_ok fl (f_elems f) HF9) as [Ok1 Ok2].
+    pose proof (run_abs fl (inc_cpp_class fl) (f_elems f) st0 st_fl Hinv0 Hfl Ok1 Hdf
+                        (or_introl Haw0)) as R1.
+    pose proof (run_abs default_flags (inc_cpp_class fl) (f_elems f) st0 st_def Hinv0 Hdef Ok2 Hdf
+                        (or_introl Haw0)) as R2.
+    assert (E : absn st_fl = absn st_def) by congruence.
+    rewrite !from_doc_sel.
+    change (map doc_view (sel (documented st_fl) (origins st_fl))) with (documented (absn st_fl)).
+    change (map doc_view (sel (documented st_def) (origins st_def))) with (documented (absn st_def)).
+    rewrite E. reflexivity.
+  Qed.
+
+  (* the same for any two settings *)
+  Corollary documented_entries_stable2 : forall fl1 fl2 f st1 st2,
+      no_F9 fl1 (f_elems f) = true -> no_F9 fl2 (f_elems f) = true ->
+      decls_followed (f_elems f) = true ->
+      aggregate default_flags trigger strip_fn strip_mac strip_mem f <> Crash ->
+      aggregate fl1 trigger strip_fn strip_mac strip_mem f = Ok st1 ->
+      aggregate fl2 trigger strip_fn strip_mac strip_mem f = Ok st2 ->
+      map doc_view (from_doc st1) = map doc_view (from_doc st2).
+  Proof.
+    intros fl1 fl2 f st1 st2 H1 H2 Hdf Hd A1 A2.
+    destruct (aggregate default_flags trigger strip_fn strip_mac strip_mem f) as [sd|] eqn:Ed;
+      [|contradiction Hd; reflexivity].
+    rewrite (documented_entries_stable fl1 f st1 sd H1 Hdf A1 Ed).
+    rewrite (documented_entries_stable fl2 f st2 sd H2 Hdf A2 Ed). reflexivity.
+  Qed.
+
+End Abstraction.
+
+(* ---- examples: the counterexample to the unrestricted G5, and non-vacuity ------------------- *)
+
+Module FlagExamples.
+  Import AggClass.Examples.
+  Local Open Scope string_scope.
+
+  Definition flags_member_off : flags :=
+    {| inc_function := true; inc_macro := true; inc_cpp_class := true; inc_cpp_attr := true;
+       inc_cpp_constructor := true; inc_cpp_member := false; inc_ct_add_test := true;
+       inc_ct_add_section := true; inc_add_test := true; inc_option := true |}.
+
+  (* a documented class with a documented member that has no implementation (a virtual member),
+     followed by an undocumented member and its implementation *)
+  Definition stale_file : cfile :=
+    {| f_module := None;
+       f_elems :=
+         [ EDocCmd dtext (mkc "cpp_class" ["Shape"]);
+           EDocCmd dtext (mkc "cpp_member" ["area"; "Shape"]);
+           ECmd (mkc "cpp_virtual_member" ["area"]);
+           ECmd (mkc "cpp_member" ["helper"; "Shape"; "int"]);
+           ECmd (mkc "function" ["${helper}"; "self"; "x"]);
+           ECmd (mkc "endfunction" []);
+           ECmd (mkc "cpp_end_class" []) ] |}.
+
+  Definition area_method (params : list str) : method :=
+    {| m_name := s"area"; m_doc := ddoc; m_parent := s"Shape"; m_types := []; m_params := params;
+       m_ctor := false; m_macro := false; m_docd := true |}.
+
+  Definition view (fl : flags) (f : cfile) : option (list entry) :=
+    match aggregate fl trg idf idf idf f with
+    | Ok st => Some (map doc_view (from_doc st))
+    | Crash => None
+    end.
+
+  (* G5 as requested (only no_F9) is FALSE: with the member option off the hidden declaration of
+     helper does not take over the awaiting slot, so its function is claimed by the documented
+     member area, whose signature changes from area() to area(x) *)
+  Example documented_entries_stable_refuted :
+    no_F9 flags_member_off (f_elems stale_file) = true
+    /\ decls_followed (f_elems stale_file) = false
+    /\ view flags_member_off stale_file
+       = Some [EClass (s"Shape") ddoc [] [] [] [area_method [s"x"]] []]
+    /\ view default_flags stale_file
+       = Some [EClass (s"Shape") ddoc [] [] [] [area_method []] []]
+    /\ method_heading (area_method [s"x"]) = s"area(x)"
+    /\ method_heading (area_method []) = s"area()".
+  Proof. vm_compute. repeat split. Qed.
+
+  (* a file that satisfies the hypotheses of documented_entries_stable, run with every option off:
+     documented and undocumented classes, members, tests, functions, options *)
+  Definition good_file : cfile :=
+    {| f_module := Some (s"@module demo");
+       f_elems :=
+         [ EDocCmd dtext (mkc "function" ["f"; "a"; "b"]);
+           ECmd (mkc "cmake_parse_arguments" ["x"; "y"]);
+           ECmd (mkc "endfunction" []);
+           ECmd (mkc "function" ["g"]);
+           ECmd (mkc "endfunction" []);
+           ECmd (mkc "cpp_class" ["Plain"]);
+           ECmd (mkc "cpp_member" ["m"; "Plain"]);
+           ECmd (mkc "function" ["${m}"; "self"]);
+           ECmd (mkc "endfunction" []);
+           ECmd (mkc "cpp_end_class" []);
+           EDocCmd dtext (mkc "ct_add_test" ["NAME"; "t1"]);
+           ECmd (mkc "function" ["${t1}"]);
+           ECmd (mkc "ct_add_section" ["NAME"; "s1"]);
+           ECmd (mkc "macro" ["${s1}"]);
+           ECmd (mkc "endmacro" []);
+           ECmd (mkc "endfunction" []);
+           EDocCmd dtext (mkc "option" ["OPT"; "help"]);
+           ECmd (mkc "option" ["OPT2"; "help"; "ON"]);
+           EDocCmd dtext (mkc "set" ["V"; "1"]);
+           EDocCmd dtext (mkc "message" ["hello"]) ] |}.
+
+  Example documented_entries_stable_nonvacuous :
+    no_F9 flags_off (f_elems good_file) = true
+    /\ decls_followed (f_elems good_file) = true
+    /\ (exists st, aggregate flags_off trg idf idf idf good_file = Ok st
+                   /\ length (from_doc st) = 6 /\ length (documented st) = 6)
+    /\ (exists st, aggregate default_flags trg idf idf idf good_file = Ok st
+                   /\ length (from_doc st) = 6 /\ length (documented st) = 10).
+  Proof.
+    split; [reflexivity|]. split; [reflexivity|]. split.
+    - destruct (aggregate flags_off trg idf idf idf good_file) as [st|] eqn:E.
+      + exists st. split; [reflexivity|]. revert E. vm_compute. intros E.
+        inversion E; subst. split; reflexivity.
+      + exfalso. revert E. vm_compute. discriminate.
+    - destruct (aggregate default_flags trg idf idf idf good_file) as [st|] eqn:E.
+      + exists st. split; [reflexivity|]. revert E. vm_compute. intros E.
+        inversion E; subst. split; reflexivity.
+      + exfalso. revert E. vm_compute. discriminate.
+  Qed.
+
+  (* with the class option on, a doccomment-carrying class and its documented members survive
+     every other option being off *)
+  Definition flags_only_class : flags :=
+    {| inc_function := false; inc_macro := false; inc_cpp_class := true; inc_cpp_attr := false;
+       inc_cpp_constructor := false; inc_cpp_member := false; inc_ct_add_test := false;
+       inc_ct_add_section := false; inc_add_test := false; inc_option := false |}.
+  Definition class_file : cfile :=
+    {| f_module := None;
+       f_elems :=
+         [ EDocCmd dtext (mkc "cpp_class" ["Shape"; "Base"]);
+           EDocCmd dtext (mkc "cpp_attr" ["Shape"; "sides"; "4"]);
+           ECmd (mkc "cpp_attr" ["Shape"; "hidden"]);
+           EDocCmd dtext (mkc "cpp_member" ["area"; "Shape"; "int"]);
+           ECmd (mkc "function" ["${area}"; "self"; "scale"]);
+           ECmd (mkc "endfunction" []);
+           ECmd (mkc "cpp_member" ["helper"; "Shape"]);
+           ECmd (mkc "function" ["${helper}"; "self"; "x"]);
+           ECmd (mkc "endfunction" []);
+           ECmd (mkc "cpp_end_class" []) ] |}.
+
+  Example documented_entries_stable_class_example :
+    no_F9 flags_only_class (f_elems class_file) = true
+    /\ decls_followed (f_elems class_file) = true
+    /\ view flags_only_class class_file = view default_flags class_file
+    /\ view default_flags class_file
+       = Some [EClass (s"Shape") ddoc [s"Base"] [] []
+                      [{| m_name := s"area"; m_doc := ddoc; m_parent := s"Shape";
+                          m_types := [s"int"]; m_params := [s"scale"]; m_ctor := false;
+                          m_macro := false; m_docd := true |}]
+                      [{| a_name := s"sides"; a_doc := ddoc; a_parent := s"Shape";
+                          a_default := Some (s"4"); a_docd := true |}]].
+  Proof. vm_compute. repeat split. Qed.
+
+  (* F9 on a concrete file: the documented member of a documented class vanishes *)
+  Example F9_example :
+    no_F9 flags_off (f_elems class_file) = false
+    /\ view flags_off class_file = Some [EClass (s"Shape") ddoc [s"Base"] [] [] [] []].
+  Proof. vm_compute. repeat split. Qed.
+
+  (* G2 / G3 on concrete steps *)
+  Example flag_off_no_entry_example :
+    agg_step flags_off trg idf idf idf agg_init (ECmd (mkc "option" ["OPT"; "help"])) = Ok agg_init
+    /\ agg_step flags_off trg idf idf idf agg_init (ECmd (mkc "function" ["f"]))
+       = Ok (with_def_stack [None] agg_init)
+    /\ agg_step default_flags trg idf idf idf agg_init (ECmd (mkc "option" ["OPT"; "help"]))
+       = Ok (append (EOption (s"OPT") [] None (s"help")) false agg_init).
+  Proof. vm_compute. repeat split. Qed.
+End FlagExamples.
+
+(* ==== MAIN THEOREMS ====
+   G1  enter_documented_flag_free, enter_command_consumed_flag_free,
+       documented_step_flag_independent, documented_class_step_flag_on,
+       F9_documented_class_pushes_none
+   G2  undocumented_flag_off_no_entry, undocumented_flag_off_entries_unchanged,
+       claimed_definition_flag_free
+   G3  undocumented_flag_on_as_default, no_flag_kind_step
+   G4  flags_only_via_include_flag, run_flags_agree
+   G5  documented_entries_stable (with the extra hypothesis decls_followed), documented_entries_stable2
+       FlagExamples.documented_entries_stable_refuted (the statement without decls_followed is false)
+       support: step_abs, run_abs, enter_command_abs, doc_handler_abs, undoc_handler_abs
+       enter_command by kind: enter_command_def_eq, enter_command_class_eq, enter_command_plain_eq,
+       enter_command_end_class_eq, enter_command_end_def_eq, enter_command_cpa_eq,
+       enter_command_set_eq, enter_command_other_eq *)
+Print Assumptions enter_documented_flag_free.
+Print Assumptions documented_step_flag_independent.
+Print Assumptions documented_class_step_flag_on.
+Print Assumptions F9_documented_class_pushes_none.
+Print Assumptions undocumented_flag_off_no_entry.
+Print Assumptions undocumented_flag_off_entries_unchanged.
+Print Assumptions claimed_definition_flag_free.
+Print Assumptions undocumented_flag_on_as_default.
+Print Assumptions flags_only_via_include_flag.
+Print Assumptions run_flags_agree.
+Print Assumptions documented_entries_stable.
+Print Assumptions documented_entries_stable2.
+Print Assumptions FlagExamples.documented_entries_stable_refuted.
+Print Assumptions FlagExamples.documented_entries_stable_nonvacuous.
+Print Assumptions FlagExamples.documented_entries_stable_class_example.
